@@ -12,11 +12,13 @@ import NeumannModel.Graph.Lemmas
   record; a thread between the `get` and the `put` of a list holds its lock and the list it read is
   still the stored one.
 
-  `C` is the set of node ids that `create_node` may hand out during the phase (`nn0` = the node
-  counter at its beginning): no edge record has an endpoint in `C` (`J.x1`), so the adjacency lists
-  of such a node are empty when `create_node` (re-)initialises them AFTER having stored the node
-  record.  `create_edge(a, b)` is admissible only for `a, b ∉ C`.  With `C = ∅` (`create_node` not
-  admissible) the arguments of `create_edge` are arbitrary.
+  `create_node` (since /repo e23bf6c3) writes the two empty adjacency lists of its fresh id BEFORE
+  the node record.  While it does so the node is invisible (`nodeEx = false`, clause `Local` of the
+  phases `cnP1/cnP2/cnP3`; kept by the other threads because node ids are handed out once, `J.uniqN`,
+  and every other node write re-writes a node it has seen, `Local` of `unP`); every edge record has
+  both endpoints visible (`J.e1`) and nobody deletes nodes, so the lists of an invisible node are
+  empty (`J.lists_of_invisible_node`) and writing the empty lists changes no view.  Hence the arguments
+  of `create_edge` are arbitrary also when other threads create nodes.
 -/
 set_option linter.unusedSimpArgs false
 set_option linter.unusedVariables false
@@ -119,8 +121,8 @@ inductive Ph where
   | drec (e : Nat) (r : EdgeRec)
   | cnA (l v : Nat)
   | cnP1 (id l v : Nat)
-  | cnP2 (id : Nat)
-  | cnP3 (id : Nat)
+  | cnP2 (id l v : Nat)
+  | cnP3 (id l v : Nat)
   | alA (n l : Nat)
   | rlA (n l : Nat)
   | lbB (n : Nat) (labs : List Nat)
@@ -144,8 +146,8 @@ def Ph.prog : Ph → Prog
   | .drec e _ => delTail e
   | .cnA l v => createNodeProg l v
   | .cnP1 id l v => createNodeFrom id l v
-  | .cnP2 id => .put (.out id) (.list []) (.put (.inn id) (.list []) (.done (.id id)))
-  | .cnP3 id => .put (.inn id) (.list []) (.done (.id id))
+  | .cnP2 id l v => .put (.inn id) (.list []) (.put (.node id) (.node [l] v) (.done (.id id)))
+  | .cnP3 id l v => .put (.node id) (.node [l] v) (.done (.id id))
   | .alA n l => addLabelProg n l
   | .rlA n l => removeLabelProg n l
   | .lbB n labs => .get (.node n) (labelPut n labs)
@@ -174,6 +176,11 @@ def Ph.creates : Ph → Option Nat
   | .pre x .. | .add x .. => some x
   | _ => none
 
+/-- the node id a `create_node` in flight has been handed and has not made visible yet -/
+def Ph.makes : Ph → Option Nat
+  | .cnP1 id .. | .cnP2 id .. | .cnP3 id .. => some id
+  | _ => none
+
 /-- what the operation in flight still owes about edge `x` and list `K` -/
 def Exc (ph : Ph) (x : Nat) (K : Key) : Prop :=
   match ph with
@@ -193,16 +200,16 @@ def stageOK (m : KV) (held : List Key) (k : Key) : Stage → Prop
   | _ => k ∈ held
 
 /-- the clause of `J` about one thread -/
-def Local (ne0 nn0 : Nat) (C D : Nat → Prop) (m : KV) (ne : Nat) (held : List Key) : Ph → Prop
+def Local (ne0 : Nat) (D : Nat → Prop) (m : KV) (ne : Nat) (held : List Key) : Ph → Prop
   | .fin _ => True
-  | .ceA a b .. => ¬ C a ∧ ¬ C b
-  | .ceB a b .. => nodeEx m a = true ∧ ¬ C a ∧ ¬ C b
-  | .ceAl a b .. => nodeEx m a = true ∧ nodeEx m b = true ∧ ¬ C a ∧ ¬ C b
-  | .pre x a b .. => edgeAt m x = none ∧ ne0 < x ∧ x ≤ ne ∧ nodeEx m a = true ∧ nodeEx m b = true ∧ ¬ C a ∧ ¬ C b
-  | .cnA .. => ∀ n, nn0 < n → C n
-  | .cnP1 id .. => C id
-  | .cnP2 id => C id
-  | .cnP3 id => C id
+  | .ceA .. => True
+  | .ceB a .. => nodeEx m a = true
+  | .ceAl a b .. => nodeEx m a = true ∧ nodeEx m b = true
+  | .pre x a b .. => edgeAt m x = none ∧ ne0 < x ∧ x ≤ ne ∧ nodeEx m a = true ∧ nodeEx m b = true
+  | .cnA .. => True
+  | .cnP1 id .. => nodeEx m id = false
+  | .cnP2 id .. => nodeEx m id = false
+  | .cnP3 id .. => nodeEx m id = false
   | .add x r k ks st => edgeAt m x = some r ∧ ne0 < x ∧ x ≤ ne ∧ (∀ K ∈ k :: ks, K ∈ req r) ∧ stageOK m held k st
   | .deA e => e ≤ ne0 ∧ D e
   | .rm e r k ks st => e ≤ ne0 ∧ D e ∧ (∀ r', edgeAt m e = some r' → r' = r) ∧ (∀ K ∈ k :: ks, K ∈ req r) ∧
@@ -213,26 +220,28 @@ def Local (ne0 nn0 : Nat) (C D : Nat → Prop) (m : KV) (ne : Nat) (held : List 
   | .lbB .. => True
   | .unA .. => True
   | .unB .. => True
-  | .unP .. => True
+  | .unP n _ => nodeEx m n = true
   | .ueA e _ => e ≤ ne0 ∧ ¬ D e
   | .ueB e _ => e ≤ ne0 ∧ ¬ D e
   | .ueP e r _ => e ≤ ne0 ∧ ¬ D e ∧ ∃ r', edgeAt m e = some r' ∧ sameShape r' r
   | .ueO e other => e ≤ ne0 ∧ edgeOf (some other) = none ∧ edgeAt m e = none
 
-structure J (ne0 nn0 : Nat) (C D : Nat → Prop) (phs : List Ph) (s : St) (held : List Key) : Prop where
+structure J (ne0 : Nat) (D : Nat → Prop) (phs : List Ph) (s : St) (held : List Key) : Prop where
   ne_ge : ne0 ≤ s.ne
-  nn_ge : nn0 ≤ s.nn
-  x1 : ∀ x r, edgeAt s.kv x = some r → ¬ C r.src ∧ ¬ C r.dst
   fresh : ∀ x, s.ne < x → edgeAt s.kv x = none
+  freshN : ∀ n, s.nn < n → nodeEx s.kv n = false
   e1 : ∀ x r, edgeAt s.kv x = some r → nodeEx s.kv r.src = true ∧ nodeEx s.kv r.dst = true ∧
         ∀ K ∈ req r, x ∈ L s.kv K ∨ ∃ (j : Nat) (ph : Ph), phs[j]? = some ph ∧ Exc ph x K
   e2 : ∀ K x, x ∈ L s.kv K → ∃ r, edgeAt s.kv x = some r ∧ K ∈ req r
   e3 : ∀ K, (L s.kv K).Nodup
-  loc : ∀ (j : Nat) (ph : Ph), phs[j]? = some ph → Local ne0 nn0 C D s.kv s.ne held ph
+  loc : ∀ (j : Nat) (ph : Ph), phs[j]? = some ph → Local ne0 D s.kv s.ne held ph
   excl : ∀ (i j : Nat) (ph ph' : Ph), i ≠ j → phs[i]? = some ph → phs[j]? = some ph' →
         ∀ k, ph.holds = some k → ph'.holds ≠ some k
   uniq : ∀ (i j : Nat) (ph ph' : Ph), i ≠ j → phs[i]? = some ph → phs[j]? = some ph' →
         ∀ x, ph.creates = some x → ph'.creates ≠ some x
+  mkle : ∀ (j : Nat) (ph : Ph) (id : Nat), phs[j]? = some ph → ph.makes = some id → id ≤ s.nn
+  uniqN : ∀ (i j : Nat) (ph ph' : Ph), i ≠ j → phs[i]? = some ph → phs[j]? = some ph' →
+        ∀ x, ph.makes = some x → ph'.makes ≠ some x
 
 /-! ### what a step of one thread may change for the others -/
 
@@ -255,6 +264,7 @@ structure Frame (ph : Ph) (m : KV) (ne : Nat) (held : List Key) (m' : KV) (ne' :
   del : ∀ e, ph.deletes = some e →
     (∀ r, edgeAt m' e = some r → edgeAt m e = some r) ∧ (∀ K, e ∉ L m K → e ∉ L m' K)
   upd : ∀ e, ph.updates = some e → ∀ r, edgeAt m e = some r → ∃ r', edgeAt m' e = some r' ∧ sameShape r' r
+  hid : ∀ id, ph.makes = some id → nodeEx m id = false → nodeEx m' id = false
 
 theorem stageOK_frame {m m' : KV} {held held' : List Key} {k : Key} {st : Stage}
     (h : stageOK m held k st) (hh : st.holding = true → k ∈ held → k ∈ held')
@@ -265,21 +275,21 @@ theorem stageOK_frame {m m' : KV} {held held' : List Key} {k : Key} {st : Stage}
   | rel => exact hh rfl h
   | put l => exact ⟨hh rfl h.1, by rw [hl rfl]; exact h.2⟩
 
-theorem Local.frame {ne0 nn0 : Nat} {C D : Nat → Prop} {m m' : KV} {ne ne' : Nat} {held held' : List Key} {ph : Ph}
-    (h : Local ne0 nn0 C D m ne held ph) (f : Frame ph m ne held m' ne' held') : Local ne0 nn0 C D m' ne' held' ph := by
+theorem Local.frame {ne0 : Nat} {D : Nat → Prop} {m m' : KV} {ne ne' : Nat} {held held' : List Key} {ph : Ph}
+    (h : Local ne0 D m ne held ph) (f : Frame ph m ne held m' ne' held') : Local ne0 D m' ne' held' ph := by
   cases ph with
   | fin res => trivial
-  | ceA a b d ty v => exact h
-  | ceB a b d ty v => exact ⟨f.node _ h.1, h.2⟩
-  | ceAl a b d ty v => exact ⟨f.node _ h.1, f.node _ h.2.1, h.2.2⟩
+  | ceA a b d ty v => trivial
+  | ceB a b d ty v => exact f.node _ h
+  | ceAl a b d ty v => exact ⟨f.node _ h.1, f.node _ h.2⟩
   | pre x a b d ty v =>
     simp only [Local] at h ⊢
     rw [f.cre x rfl]
-    exact ⟨h.1, h.2.1, Nat.le_trans h.2.2.1 f.ne_le, f.node _ h.2.2.2.1, f.node _ h.2.2.2.2.1, h.2.2.2.2.2⟩
-  | cnA l v => exact h
-  | cnP1 id l v => exact h
-  | cnP2 id => exact h
-  | cnP3 id => exact h
+    exact ⟨h.1, h.2.1, Nat.le_trans h.2.2.1 f.ne_le, f.node _ h.2.2.2.1, f.node _ h.2.2.2.2⟩
+  | cnA l v => trivial
+  | cnP1 id l v => exact f.hid id rfl h
+  | cnP2 id l v => exact f.hid id rfl h
+  | cnP3 id l v => exact f.hid id rfl h
   | add x r k ks st =>
     simp only [Local] at h ⊢
     obtain ⟨h1, h2, h3, h4, h5⟩ := h
@@ -302,7 +312,7 @@ theorem Local.frame {ne0 nn0 : Nat} {C D : Nat → Prop} {m m' : KV} {ne ne' : N
   | lbB n labs => trivial
   | unA n lab v => trivial
   | unB n lab v => trivial
-  | unP n val => trivial
+  | unP n val => exact f.node _ h
   | ueA e v => exact h
   | ueB e v => exact h
   | ueP e r v =>
@@ -319,8 +329,8 @@ theorem Local.frame {ne0 nn0 : Nat} {C D : Nat → Prop} {m m' : KV} {ne ne' : N
     | none => rfl
     | some r => rw [d1 r hx] at h3; cases h3
 
-theorem Local.holds_held {ne0 nn0 : Nat} {C D : Nat → Prop} {m : KV} {ne : Nat} {held : List Key} {ph : Ph} {k : Key}
-    (h : Local ne0 nn0 C D m ne held ph) (hk : ph.holds = some k) : k ∈ held := by
+theorem Local.holds_held {ne0 : Nat} {D : Nat → Prop} {m : KV} {ne : Nat} {held : List Key} {ph : Ph} {k : Key}
+    (h : Local ne0 D m ne held ph) (hk : ph.holds = some k) : k ∈ held := by
   cases ph with
   | add x r k' ks st =>
     simp only [Local] at h
@@ -336,23 +346,23 @@ theorem Local.holds_held {ne0 nn0 : Nat} {C D : Nat → Prop} {m : KV} {ne : Nat
     · exact h.2.2.2.2.2
   | _ => simp [Ph.holds] at hk
 
-theorem Local.creates_le {ne0 nn0 : Nat} {C D : Nat → Prop} {m : KV} {ne : Nat} {held : List Key} {ph : Ph} {x : Nat}
-    (h : Local ne0 nn0 C D m ne held ph) (hx : ph.creates = some x) : ne0 < x ∧ x ≤ ne := by
+theorem Local.creates_le {ne0 : Nat} {D : Nat → Prop} {m : KV} {ne : Nat} {held : List Key} {ph : Ph} {x : Nat}
+    (h : Local ne0 D m ne held ph) (hx : ph.creates = some x) : ne0 < x ∧ x ≤ ne := by
   cases ph with
   | pre x' a b d ty v => simp [Ph.creates] at hx; subst hx; exact ⟨h.2.1, h.2.2.1⟩
   | add x' r k ks st => simp [Ph.creates] at hx; subst hx; exact ⟨h.2.1, h.2.2.1⟩
   | _ => simp [Ph.creates] at hx
 
-theorem Local.deletes_le {ne0 nn0 : Nat} {C D : Nat → Prop} {m : KV} {ne : Nat} {held : List Key} {ph : Ph} {e : Nat}
-    (h : Local ne0 nn0 C D m ne held ph) (he : ph.deletes = some e) : e ≤ ne0 := by
+theorem Local.deletes_le {ne0 : Nat} {D : Nat → Prop} {m : KV} {ne : Nat} {held : List Key} {ph : Ph} {e : Nat}
+    (h : Local ne0 D m ne held ph) (he : ph.deletes = some e) : e ≤ ne0 := by
   cases ph with
   | rm e' r k ks st => simp [Ph.deletes] at he; subst he; exact h.1
   | drec e' r => simp [Ph.deletes] at he; subst he; exact h.1
   | ueO e' o => simp [Ph.deletes] at he; subst he; exact h.1
   | _ => simp [Ph.deletes] at he
 
-theorem Local.updates_le {ne0 nn0 : Nat} {C D : Nat → Prop} {m : KV} {ne : Nat} {held : List Key} {ph : Ph} {e : Nat}
-    (h : Local ne0 nn0 C D m ne held ph) (he : ph.updates = some e) : e ≤ ne0 ∧ ¬ D e ∧ (edgeAt m e).isSome = true := by
+theorem Local.updates_le {ne0 : Nat} {D : Nat → Prop} {m : KV} {ne : Nat} {held : List Key} {ph : Ph} {e : Nat}
+    (h : Local ne0 D m ne held ph) (he : ph.updates = some e) : e ≤ ne0 ∧ ¬ D e ∧ (edgeAt m e).isSome = true := by
   cases ph with
   | ueP e' r v =>
     simp [Ph.updates] at he; subst he
@@ -362,8 +372,8 @@ theorem Local.updates_le {ne0 nn0 : Nat} {C D : Nat → Prop} {m : KV} {ne : Nat
 
 /-- a thread that still removes entries of `e`, or is about to delete its record, only exists for
     ids that may be deleted; a thread that waits for the record of `e` to stay absent sees it absent -/
-theorem Local.deletes_D {ne0 nn0 : Nat} {C D : Nat → Prop} {m : KV} {ne : Nat} {held : List Key} {ph : Ph} {e : Nat}
-    (h : Local ne0 nn0 C D m ne held ph) (he : ph.deletes = some e) : D e ∨ edgeAt m e = none := by
+theorem Local.deletes_D {ne0 : Nat} {D : Nat → Prop} {m : KV} {ne : Nat} {held : List Key} {ph : Ph} {e : Nat}
+    (h : Local ne0 D m ne held ph) (he : ph.deletes = some e) : D e ∨ edgeAt m e = none := by
   cases ph with
   | rm e' r k ks st => simp [Ph.deletes] at he; subst he; exact Or.inl h.2.1
   | drec e' r => simp [Ph.deletes] at he; subst he; exact Or.inl h.2.1
@@ -383,23 +393,24 @@ theorem get_set {phs : List Ph} {i : Nat} {ph : Ph} (hi : phs[i]? = some ph) (ph
     simp [h, this]
 
 /-- the step of thread `i` from phase `ph` to `ph'`: what has to be shown -/
-theorem J.step {ne0 nn0 : Nat} {C D : Nat → Prop} {phs : List Ph} {s : St} {held : List Key} {i : Nat} {ph : Ph}
-    (hJ : J ne0 nn0 C D phs s held) (hi : phs[i]? = some ph) (ph' : Ph) (s' : St) (held' : List Key)
+theorem J.step {ne0 : Nat} {D : Nat → Prop} {phs : List Ph} {s : St} {held : List Key} {i : Nat} {ph : Ph}
+    (hJ : J ne0 D phs s held) (hi : phs[i]? = some ph) (ph' : Ph) (s' : St) (held' : List Key)
     (hne : s.ne ≤ s'.ne)
     (hnn : s.nn ≤ s'.nn)
-    (hx1 : ∀ x r, edgeAt s'.kv x = some r → ¬ C r.src ∧ ¬ C r.dst)
     (hfresh : ∀ x, s'.ne < x → edgeAt s'.kv x = none)
+    (hfreshN : ∀ n, s'.nn < n → nodeEx s'.kv n = false)
     (he1 : ∀ x r, edgeAt s'.kv x = some r → nodeEx s'.kv r.src = true ∧ nodeEx s'.kv r.dst = true ∧
         ∀ K ∈ req r, x ∈ L s'.kv K ∨ Exc ph' x K ∨
           ∃ (j : Nat) (ph2 : Ph), j ≠ i ∧ phs[j]? = some ph2 ∧ Exc ph2 x K)
     (he2 : ∀ K x, x ∈ L s'.kv K → ∃ r, edgeAt s'.kv x = some r ∧ K ∈ req r)
     (he3 : ∀ K, (L s'.kv K).Nodup)
-    (hloc : Local ne0 nn0 C D s'.kv s'.ne held' ph')
+    (hloc : Local ne0 D s'.kv s'.ne held' ph')
     (hframe : ∀ (j : Nat) (ph2 : Ph), j ≠ i → phs[j]? = some ph2 → Frame ph2 s.kv s.ne held s'.kv s'.ne held')
     (hexcl : ∀ k, ph'.holds = some k → ph.holds = some k ∨ k ∉ held)
-    (huniq : ∀ x, ph'.creates = some x → ph.creates = some x ∨ s.ne < x) :
-    J ne0 nn0 C D (phs.set i ph') s' held' := by
-  refine ⟨Nat.le_trans hJ.ne_ge hne, Nat.le_trans hJ.nn_ge hnn, hx1, hfresh, ?_, he2, he3, ?_, ?_, ?_⟩
+    (huniq : ∀ x, ph'.creates = some x → ph.creates = some x ∨ s.ne < x)
+    (hmk : ∀ x, ph'.makes = some x → ph.makes = some x ∨ (s.nn < x ∧ x ≤ s'.nn)) :
+    J ne0 D (phs.set i ph') s' held' := by
+  refine ⟨Nat.le_trans hJ.ne_ge hne, hfresh, hfreshN, ?_, he2, he3, ?_, ?_, ?_, ?_, ?_⟩
   · intro x r hr
     obtain ⟨h1, h2, h3⟩ := he1 x r hr
     refine ⟨h1, h2, fun K hK => ?_⟩
@@ -444,19 +455,46 @@ theorem J.step {ne0 nn0 : Nat} {C D : Nat → Prop} {phs : List Ph} {s : St} {he
         · have := ((hJ.loc a pa ha).creates_le hx1).2; omega
       · simp [hbi] at hb
         exact hJ.uniq a b pa pb hab ha hb x hx1 hx2
+  · intro j ph2 id hj hm
+    rw [get_set hi] at hj
+    by_cases hji : j = i
+    · simp [hji] at hj; subst hj
+      rcases hmk id hm with h | h
+      · exact Nat.le_trans (hJ.mkle i ph id hi h) hnn
+      · exact h.2
+    · simp [hji] at hj
+      exact Nat.le_trans (hJ.mkle j ph2 id hj hm) hnn
+  · intro a b pa pb hab ha hb x hx1 hx2
+    rw [get_set hi] at ha hb
+    by_cases hai : a = i
+    · have hbi : b ≠ i := fun h => hab (hai.trans h.symm)
+      simp [hai] at ha; simp [hbi] at hb; subst ha
+      rcases hmk x hx1 with h | h
+      · exact hJ.uniqN i b ph pb (fun h => hbi h.symm) hi hb x h hx2
+      · have := hJ.mkle b pb x hb hx2; omega
+    · simp [hai] at ha
+      by_cases hbi : b = i
+      · simp [hbi] at hb; subst hb
+        rcases hmk x hx2 with h | h
+        · exact hJ.uniqN a i pa ph hai ha hi x hx1 h
+        · have := hJ.mkle a pa x ha hx1; omega
+      · simp [hbi] at hb
+        exact hJ.uniqN a b pa pb hab ha hb x hx1 hx2
 
 /-- a step that leaves the store alone and does not shrink what thread `i` is excused for -/
-theorem J.step_same {ne0 nn0 : Nat} {C D : Nat → Prop} {phs : List Ph} {s : St} {held : List Key} {i : Nat} {ph : Ph}
-    (hJ : J ne0 nn0 C D phs s held) (hi : phs[i]? = some ph) (ph' : Ph) (ne' : Nat) (held' : List Key)
-    (hne : s.ne ≤ ne')
+theorem J.step_cnt {ne0 : Nat} {D : Nat → Prop} {phs : List Ph} {s : St} {held : List Key} {i : Nat} {ph : Ph}
+    (hJ : J ne0 D phs s held) (hi : phs[i]? = some ph) (ph' : Ph) (ne' nn' : Nat) (held' : List Key)
+    (hne : s.ne ≤ ne') (hnn : s.nn ≤ nn')
     (hexc : ∀ x K, Exc ph x K → Exc ph' x K)
-    (hloc : Local ne0 nn0 C D s.kv ne' held' ph')
+    (hloc : Local ne0 D s.kv ne' held' ph')
     (hheld : ∀ (j : Nat) (ph2 : Ph), j ≠ i → phs[j]? = some ph2 → ∀ k, ph2.holds = some k → k ∈ held → k ∈ held')
     (hexcl : ∀ k, ph'.holds = some k → ph.holds = some k ∨ k ∉ held)
-    (huniq : ∀ x, ph'.creates = some x → ph.creates = some x ∨ s.ne < x) :
-    J ne0 nn0 C D (phs.set i ph') { s with ne := ne' } held' := by
-  apply hJ.step hi ph' { s with ne := ne' } held' hne (Nat.le_refl _) hJ.x1
+    (huniq : ∀ x, ph'.creates = some x → ph.creates = some x ∨ s.ne < x)
+    (hmk : ∀ x, ph'.makes = some x → ph.makes = some x ∨ (s.nn < x ∧ x ≤ nn')) :
+    J ne0 D (phs.set i ph') { s with ne := ne', nn := nn' } held' := by
+  apply hJ.step hi ph' { s with ne := ne', nn := nn' } held' hne hnn
   · intro x hx; exact hJ.fresh x (by simp at hx; omega)
+  · intro n hn; exact hJ.freshN n (by simp at hn; omega)
   · intro x r hr
     obtain ⟨h1, h2, h3⟩ := hJ.e1 x r hr
     refine ⟨h1, h2, fun K hK => ?_⟩
@@ -470,19 +508,33 @@ theorem J.step_same {ne0 nn0 : Nat} {C D : Nat → Prop} {phs : List Ph} {s : St
   · exact hloc
   · intro j ph2 hji hj
     exact ⟨hne, fun _ h => h, hheld j ph2 hji hj, fun _ _ => rfl, fun _ _ => rfl,
-      fun _ _ => ⟨fun _ h => h, fun _ h => h⟩, fun _ _ r hr => ⟨r, hr, rfl, rfl, rfl⟩⟩
+      fun _ _ => ⟨fun _ h => h, fun _ h => h⟩, fun _ _ r hr => ⟨r, hr, rfl, rfl, rfl⟩, fun _ _ h => h⟩
   · exact hexcl
   · exact huniq
+  · exact hmk
+
+/-- a step that leaves the store and the node counter alone; `hmk` is discharged automatically when
+    the new phase is not inside a `create_node` -/
+theorem J.step_same {ne0 : Nat} {D : Nat → Prop} {phs : List Ph} {s : St} {held : List Key} {i : Nat} {ph : Ph}
+    (hJ : J ne0 D phs s held) (hi : phs[i]? = some ph) (ph' : Ph) (ne' : Nat) (held' : List Key)
+    (hne : s.ne ≤ ne')
+    (hexc : ∀ x K, Exc ph x K → Exc ph' x K)
+    (hloc : Local ne0 D s.kv ne' held' ph')
+    (hheld : ∀ (j : Nat) (ph2 : Ph), j ≠ i → phs[j]? = some ph2 → ∀ k, ph2.holds = some k → k ∈ held → k ∈ held')
+    (hexcl : ∀ k, ph'.holds = some k → ph.holds = some k ∨ k ∉ held)
+    (huniq : ∀ x, ph'.creates = some x → ph.creates = some x ∨ s.ne < x)
+    (hmk : ∀ x, ph'.makes = some x → ph.makes = some x := by intro x hx; simp [Ph.makes] at hx) :
+    J ne0 D (phs.set i ph') { s with ne := ne' } held' :=
+  hJ.step_cnt hi ph' ne' s.nn held' hne (Nat.le_refl _) hexc hloc hheld hexcl huniq (fun x hx => Or.inl (hmk x hx))
 
 theorem req_cons (r : EdgeRec) : ∃ ks, req r = .out r.src :: ks := ⟨_, rfl⟩
 
 /-! ### the store steps -/
 
-theorem step_ceA {ne0 nn0 : Nat} {C D : Nat → Prop} {phs : List Ph} {s : St} {held : List Key} {i : Nat} {a b : Nat} {d : Bool} {ty v : Nat}
-    (hJ : J ne0 nn0 C D phs s held) (hi : phs[i]? = some (.ceA a b d ty v)) :
+theorem step_ceA {ne0 : Nat} {D : Nat → Prop} {phs : List Ph} {s : St} {held : List Key} {i : Nat} {a b : Nat} {d : Bool} {ty v : Nat}
+    (hJ : J ne0 D phs s held) (hi : phs[i]? = some (.ceA a b d ty v)) :
     ∃ ph', ((Ph.ceA a b d ty v).prog.step s).1 = ph'.prog ∧
-      J ne0 nn0 C D (phs.set i ph') ((Ph.ceA a b d ty v).prog.step s).2 held := by
-  have hC : ¬ C a ∧ ¬ C b := hJ.loc i _ hi
+      J ne0 D (phs.set i ph') ((Ph.ceA a b d ty v).prog.step s).2 held := by
   simp only [Ph.prog, createEdgeProg, Prog.step]
   cases hn : (s.kv (.node a)).isSome with
   | false =>
@@ -492,14 +544,14 @@ theorem step_ceA {ne0 nn0 : Nat} {C D : Nat → Prop} {phs : List Ph} {s : St} {
   | true =>
     refine ⟨.ceB a b d ty v, by simp [Ph.prog], ?_⟩
     exact hJ.step_same hi _ s.ne held (Nat.le_refl _) (fun x K h => by simp [Exc] at h)
-      (by simp only [Local]; exact ⟨hn, hC⟩)
+      (by simp only [Local]; exact hn)
       (fun _ _ _ _ _ _ h => h) (fun k hk => by simp [Ph.holds] at hk) (fun x hx => by simp [Ph.creates] at hx)
 
-theorem step_ceB {ne0 nn0 : Nat} {C D : Nat → Prop} {phs : List Ph} {s : St} {held : List Key} {i : Nat} {a b : Nat} {d : Bool} {ty v : Nat}
-    (hJ : J ne0 nn0 C D phs s held) (hi : phs[i]? = some (.ceB a b d ty v)) :
+theorem step_ceB {ne0 : Nat} {D : Nat → Prop} {phs : List Ph} {s : St} {held : List Key} {i : Nat} {a b : Nat} {d : Bool} {ty v : Nat}
+    (hJ : J ne0 D phs s held) (hi : phs[i]? = some (.ceB a b d ty v)) :
     ∃ ph', ((Ph.ceB a b d ty v).prog.step s).1 = ph'.prog ∧
-      J ne0 nn0 C D (phs.set i ph') ((Ph.ceB a b d ty v).prog.step s).2 held := by
-  obtain ⟨ha, hC⟩ : nodeEx s.kv a = true ∧ (¬ C a ∧ ¬ C b) := hJ.loc i _ hi
+      J ne0 D (phs.set i ph') ((Ph.ceB a b d ty v).prog.step s).2 held := by
+  have ha : nodeEx s.kv a = true := hJ.loc i _ hi
   simp only [Ph.prog, createEdgeCheckB, Prog.step]
   cases hn : (s.kv (.node b)).isSome with
   | false =>
@@ -509,32 +561,27 @@ theorem step_ceB {ne0 nn0 : Nat} {C D : Nat → Prop} {phs : List Ph} {s : St} {
   | true =>
     refine ⟨.ceAl a b d ty v, by simp [Ph.prog], ?_⟩
     exact hJ.step_same hi _ s.ne held (Nat.le_refl _) (fun x K h => by simp [Exc] at h)
-      (by simp only [Local]; exact ⟨ha, hn, hC⟩)
+      (by simp only [Local]; exact ⟨ha, hn⟩)
       (fun _ _ _ _ _ _ h => h) (fun k hk => by simp [Ph.holds] at hk) (fun x hx => by simp [Ph.creates] at hx)
 
 def reqTail (r : EdgeRec) : List Key := .inn r.dst :: (if r.directed then [] else [.out r.dst, .inn r.src])
 
 theorem req_eq (r : EdgeRec) : req r = .out r.src :: reqTail r := rfl
 
-theorem step_pre {ne0 nn0 : Nat} {C D : Nat → Prop} {phs : List Ph} {s : St} {held : List Key} {i : Nat} {x a b : Nat} {d : Bool} {ty v : Nat}
-    (hJ : J ne0 nn0 C D phs s held) (hi : phs[i]? = some (.pre x a b d ty v)) :
+theorem step_pre {ne0 : Nat} {D : Nat → Prop} {phs : List Ph} {s : St} {held : List Key} {i : Nat} {x a b : Nat} {d : Bool} {ty v : Nat}
+    (hJ : J ne0 D phs s held) (hi : phs[i]? = some (.pre x a b d ty v)) :
     ∃ ph', ((Ph.pre x a b d ty v).prog.step s).1 = ph'.prog ∧
-      J ne0 nn0 C D (phs.set i ph') ((Ph.pre x a b d ty v).prog.step s).2 held := by
-  obtain ⟨hx0, hlt, hle, ha, hb, hC⟩ : edgeAt s.kv x = none ∧ ne0 < x ∧ x ≤ s.ne ∧ nodeEx s.kv a = true ∧ nodeEx s.kv b = true ∧
-      (¬ C a ∧ ¬ C b) := hJ.loc i _ hi
+      J ne0 D (phs.set i ph') ((Ph.pre x a b d ty v).prog.step s).2 held := by
+  obtain ⟨hx0, hlt, hle, ha, hb⟩ : edgeAt s.kv x = none ∧ ne0 < x ∧ x ≤ s.ne ∧ nodeEx s.kv a = true ∧ nodeEx s.kv b = true :=
+    hJ.loc i _ hi
   refine ⟨.add x ⟨a, b, d, ty, v⟩ (.out a) (reqTail ⟨a, b, d, ty, v⟩) .acq, ?_, ?_⟩
   · simp only [Ph.prog, createEdgeFrom_eq, Prog.step, req_eq, addSeq, addAt]
   · simp only [Ph.prog, createEdgeFrom_eq, Prog.step]
-    have hx1' : ∀ y ry, edgeAt (upd s.kv (.edge x) (some (.edge ⟨a, b, d, ty, v⟩))) y = some ry → ¬ C ry.src ∧ ¬ C ry.dst := by
-      intro y ry hy
-      simp only [edgeAt_upd] at hy
-      split at hy
-      · simp at hy; subst hy; exact hC
-      · exact hJ.x1 y ry hy
-    apply hJ.step hi _ { s with kv := upd s.kv (.edge x) (some (.edge ⟨a, b, d, ty, v⟩)) } held (Nat.le_refl _) (Nat.le_refl _) hx1'
+    apply hJ.step hi _ { s with kv := upd s.kv (.edge x) (some (.edge ⟨a, b, d, ty, v⟩)) } held (Nat.le_refl _) (Nat.le_refl _)
     · intro y hy
       have : y ≠ x := by simp at hy; omega
       simp [this]; exact hJ.fresh y hy
+    · intro n hn; simpa using hJ.freshN n hn
     · intro y ry hy
       simp only [edgeAt_upd, nodeEx_upd, L_upd_edge] at hy ⊢
       by_cases hyx : y = x
@@ -559,7 +606,8 @@ theorem step_pre {ne0 nn0 : Nat} {C D : Nat → Prop} {phs : List Ph} {s : St} {
       refine ⟨by simp, hlt, hle, ?_, trivial⟩
       intro K hK; rw [req_eq]; exact hK
     · intro j ph2 hji hj
-      refine ⟨Nat.le_refl _, fun n h => by simpa using h, fun _ _ h => h, fun _ _ => by simp, ?_, ?_, ?_⟩
+      refine ⟨Nat.le_refl _, fun n h => by simpa using h, fun _ _ h => h, fun _ _ => by simp, ?_, ?_, ?_,
+        fun _ _ h => by simpa using h⟩
       · intro y hy
         have : y ≠ x := by
           rintro rfl
@@ -573,12 +621,13 @@ theorem step_pre {ne0 nn0 : Nat} {C D : Nat → Prop} {phs : List Ph} {s : St} {
         exact ⟨r, by simpa [this] using hr, rfl, rfl, rfl⟩
     · intro k hk; simp [Ph.holds, Stage.holding] at hk
     · intro y hy; simp [Ph.creates] at hy ⊢; exact Or.inl hy
+    · intro y hy; simp [Ph.makes] at hy
 
-theorem step_add_get {ne0 nn0 : Nat} {C D : Nat → Prop} {phs : List Ph} {s : St} {held : List Key} {i : Nat} {x : Nat} {r : EdgeRec}
+theorem step_add_get {ne0 : Nat} {D : Nat → Prop} {phs : List Ph} {s : St} {held : List Key} {i : Nat} {x : Nat} {r : EdgeRec}
     {k : Key} {ks : List Key}
-    (hJ : J ne0 nn0 C D phs s held) (hi : phs[i]? = some (.add x r k ks .get)) :
+    (hJ : J ne0 D phs s held) (hi : phs[i]? = some (.add x r k ks .get)) :
     ∃ ph', ((Ph.add x r k ks .get).prog.step s).1 = ph'.prog ∧
-      J ne0 nn0 C D (phs.set i ph') ((Ph.add x r k ks .get).prog.step s).2 held := by
+      J ne0 D (phs.set i ph') ((Ph.add x r k ks .get).prog.step s).2 held := by
   obtain ⟨h1, h2, h3, h4, h5⟩ : edgeAt s.kv x = some r ∧ ne0 < x ∧ x ≤ s.ne ∧ (∀ K ∈ k :: ks, K ∈ req r) ∧ k ∈ held :=
     hJ.loc i _ hi
   have hkl : k.isList = true := req_isList (h4 k (by simp))
@@ -590,11 +639,11 @@ theorem step_add_get {ne0 nn0 : Nat} {C D : Nat → Prop} {phs : List Ph} {s : S
       (fun _ _ _ _ _ _ h => h) (fun k' hk => by simp [Ph.holds, Stage.holding] at hk ⊢; exact Or.inl hk)
       (fun y hy => by simp [Ph.creates] at hy ⊢; exact Or.inl hy)
 
-theorem step_add_put {ne0 nn0 : Nat} {C D : Nat → Prop} {phs : List Ph} {s : St} {held : List Key} {i : Nat} {x : Nat} {r : EdgeRec}
+theorem step_add_put {ne0 : Nat} {D : Nat → Prop} {phs : List Ph} {s : St} {held : List Key} {i : Nat} {x : Nat} {r : EdgeRec}
     {k : Key} {ks : List Key} {l : List Nat}
-    (hJ : J ne0 nn0 C D phs s held) (hi : phs[i]? = some (.add x r k ks (.put l))) :
+    (hJ : J ne0 D phs s held) (hi : phs[i]? = some (.add x r k ks (.put l))) :
     ∃ ph', ((Ph.add x r k ks (.put l)).prog.step s).1 = ph'.prog ∧
-      J ne0 nn0 C D (phs.set i ph') ((Ph.add x r k ks (.put l)).prog.step s).2 held := by
+      J ne0 D (phs.set i ph') ((Ph.add x r k ks (.put l)).prog.step s).2 held := by
   obtain ⟨h1, h2, h3, h4, h5, h6⟩ : edgeAt s.kv x = some r ∧ ne0 < x ∧ x ≤ s.ne ∧ (∀ K ∈ k :: ks, K ∈ req r) ∧
       k ∈ held ∧ l = L s.kv k := hJ.loc i _ hi
   have hkl : k.isList = true := req_isList (h4 k (by simp))
@@ -608,8 +657,8 @@ theorem step_add_put {ne0 nn0 : Nat} {C D : Nat → Prop} {phs : List Ph} {s : S
   have hN : ∀ n, nodeEx (upd s.kv k (some (.list (ins (L s.kv k) x)))) n = nodeEx s.kv n :=
     fun n => nodeEx_upd_list _ _ _ _ hkl
   apply hJ.step hi _ { s with kv := upd s.kv k (some (.list (ins (L s.kv k) x))) } held (Nat.le_refl _) (Nat.le_refl _)
-    (fun y ry hy => hJ.x1 y ry (by rw [hE] at hy; exact hy))
   · intro y hy; simp only [hE]; exact hJ.fresh y hy
+  · intro n hn; simp only [hN]; exact hJ.freshN n hn
   · intro y ry hy
     simp only [hE, hN, hL] at hy ⊢
     obtain ⟨a1, a2, a3⟩ := hJ.e1 y ry hy
@@ -640,7 +689,7 @@ theorem step_add_put {ne0 nn0 : Nat} {C D : Nat → Prop} {phs : List Ph} {s : S
   · simp only [Local, stageOK, hE]; exact ⟨h1, h2, h3, h4, h5⟩
   · intro j ph2 hji hj
     refine ⟨Nat.le_refl _, fun n h => by rw [hN]; exact h, fun _ _ h => h, ?_, fun y _ => hE y, ?_,
-      fun e _ r hr => ⟨r, by rw [hE]; exact hr, rfl, rfl, rfl⟩⟩
+      fun e _ r hr => ⟨r, by rw [hE]; exact hr, rfl, rfl, rfl⟩, fun n _ h => by rw [hN]; exact h⟩
     · intro k2 hk2
       have : k2 ≠ k := by
         rintro rfl
@@ -657,11 +706,12 @@ theorem step_add_put {ne0 nn0 : Nat} {C D : Nat → Prop} {phs : List Ph} {s : S
       · exact hK
   · intro k' hk; simp [Ph.holds, Stage.holding] at hk ⊢; exact Or.inl hk
   · intro y hy; simp [Ph.creates] at hy ⊢; exact Or.inl hy
+  · intro y hy; simp [Ph.makes] at hy
 
-theorem step_deA {ne0 nn0 : Nat} {C D : Nat → Prop} {phs : List Ph} {s : St} {held : List Key} {i : Nat} {e : Nat}
-    (hJ : J ne0 nn0 C D phs s held) (hi : phs[i]? = some (.deA e)) :
+theorem step_deA {ne0 : Nat} {D : Nat → Prop} {phs : List Ph} {s : St} {held : List Key} {i : Nat} {e : Nat}
+    (hJ : J ne0 D phs s held) (hi : phs[i]? = some (.deA e)) :
     ∃ ph', ((Ph.deA e).prog.step s).1 = ph'.prog ∧
-      J ne0 nn0 C D (phs.set i ph') ((Ph.deA e).prog.step s).2 held := by
+      J ne0 D (phs.set i ph') ((Ph.deA e).prog.step s).2 held := by
   obtain ⟨hle, hD⟩ : e ≤ ne0 ∧ D e := hJ.loc i _ hi
   simp only [Ph.prog, deleteEdgeProg, Prog.step]
   have hv : edgeOf (s.kv (.edge e)) = edgeAt s.kv e := rfl
@@ -681,11 +731,11 @@ theorem step_deA {ne0 nn0 : Nat} {C D : Nat → Prop} {phs : List Ph} {s : St} {
       refine ⟨hle, hD, fun r' hr' => by rw [hr] at hr'; cases hr'; rfl, fun K hK => by rw [req_eq]; exact hK, ?_⟩
       intro K hK hn; rw [req_eq] at hK; exact absurd hK hn
 
-theorem step_rm_get {ne0 nn0 : Nat} {C D : Nat → Prop} {phs : List Ph} {s : St} {held : List Key} {i : Nat} {e : Nat} {r : EdgeRec}
+theorem step_rm_get {ne0 : Nat} {D : Nat → Prop} {phs : List Ph} {s : St} {held : List Key} {i : Nat} {e : Nat} {r : EdgeRec}
     {k : Key} {ks : List Key}
-    (hJ : J ne0 nn0 C D phs s held) (hi : phs[i]? = some (.rm e r k ks .get)) :
+    (hJ : J ne0 D phs s held) (hi : phs[i]? = some (.rm e r k ks .get)) :
     ∃ ph', ((Ph.rm e r k ks .get).prog.step s).1 = ph'.prog ∧
-      J ne0 nn0 C D (phs.set i ph') ((Ph.rm e r k ks .get).prog.step s).2 held := by
+      J ne0 D (phs.set i ph') ((Ph.rm e r k ks .get).prog.step s).2 held := by
   obtain ⟨h1, hD, h2, h3, h4, h5⟩ : e ≤ ne0 ∧ D e ∧ (∀ r', edgeAt s.kv e = some r' → r' = r) ∧ (∀ K ∈ k :: ks, K ∈ req r) ∧
       (∀ K ∈ req r, K ∉ k :: ks → e ∉ L s.kv K) ∧ k ∈ held := hJ.loc i _ hi
   have hkl : k.isList = true := req_isList (h3 k (by simp))
@@ -711,11 +761,11 @@ theorem step_rm_get {ne0 nn0 : Nat} {C D : Nat → Prop} {phs : List Ph} {s : St
       simp only [Local, stageOK, pend, and_true]
       exact ⟨h1, hD, h2, h3, h4, h5⟩
 
-theorem step_rm_put {ne0 nn0 : Nat} {C D : Nat → Prop} {phs : List Ph} {s : St} {held : List Key} {i : Nat} {e : Nat} {r : EdgeRec}
+theorem step_rm_put {ne0 : Nat} {D : Nat → Prop} {phs : List Ph} {s : St} {held : List Key} {i : Nat} {e : Nat} {r : EdgeRec}
     {k : Key} {ks : List Key} {l : List Nat}
-    (hJ : J ne0 nn0 C D phs s held) (hi : phs[i]? = some (.rm e r k ks (.put l))) :
+    (hJ : J ne0 D phs s held) (hi : phs[i]? = some (.rm e r k ks (.put l))) :
     ∃ ph', ((Ph.rm e r k ks (.put l)).prog.step s).1 = ph'.prog ∧
-      J ne0 nn0 C D (phs.set i ph') ((Ph.rm e r k ks (.put l)).prog.step s).2 held := by
+      J ne0 D (phs.set i ph') ((Ph.rm e r k ks (.put l)).prog.step s).2 held := by
   obtain ⟨h1, hD, h2, h3, h4, h5, h6⟩ : e ≤ ne0 ∧ D e ∧ (∀ r', edgeAt s.kv e = some r' → r' = r) ∧ (∀ K ∈ k :: ks, K ∈ req r) ∧
       (∀ K ∈ req r, K ∉ k :: ks → e ∉ L s.kv K) ∧ k ∈ held ∧ l = L s.kv k := hJ.loc i _ hi
   have hkl : k.isList = true := req_isList (h3 k (by simp))
@@ -729,8 +779,8 @@ theorem step_rm_put {ne0 nn0 : Nat} {C D : Nat → Prop} {phs : List Ph} {s : St
   have hN : ∀ n, nodeEx (upd s.kv k (some (.list (rmv (L s.kv k) e)))) n = nodeEx s.kv n :=
     fun n => nodeEx_upd_list _ _ _ _ hkl
   apply hJ.step hi _ { s with kv := upd s.kv k (some (.list (rmv (L s.kv k) e))) } held (Nat.le_refl _) (Nat.le_refl _)
-    (fun y ry hy => hJ.x1 y ry (by rw [hE] at hy; exact hy))
   · intro y hy; simp only [hE]; exact hJ.fresh y hy
+  · intro n hn; simp only [hN]; exact hJ.freshN n hn
   · intro y ry hy
     simp only [hE, hN, hL] at hy ⊢
     obtain ⟨a1, a2, a3⟩ := hJ.e1 y ry hy
@@ -761,7 +811,7 @@ theorem step_rm_put {ne0 nn0 : Nat} {C D : Nat → Prop} {phs : List Ph} {s : St
     · rename_i hKk; exact h4 K hK (by simp [hKk, hn])
   · intro j ph2 hji hj
     refine ⟨Nat.le_refl _, fun n h => by rw [hN]; exact h, fun _ _ h => h, ?_, fun y _ => hE y, ?_,
-      fun e _ r hr => ⟨r, by rw [hE]; exact hr, rfl, rfl, rfl⟩⟩
+      fun e _ r hr => ⟨r, by rw [hE]; exact hr, rfl, rfl, rfl⟩, fun n _ h => by rw [hN]; exact h⟩
     · intro k2 hk2
       have : k2 ≠ k := by
         rintro rfl
@@ -775,25 +825,21 @@ theorem step_rm_put {ne0 nn0 : Nat} {C D : Nat → Prop} {phs : List Ph} {s : St
       · exact hK
   · intro k' hk; simp [Ph.holds, Stage.holding] at hk ⊢; exact Or.inl hk
   · intro y hy; simp [Ph.creates] at hy
+  · intro y hy; simp [Ph.makes] at hy
 
-theorem step_drec {ne0 nn0 : Nat} {C D : Nat → Prop} {phs : List Ph} {s : St} {held : List Key} {i : Nat} {e : Nat} {r : EdgeRec}
-    (hJ : J ne0 nn0 C D phs s held) (hi : phs[i]? = some (.drec e r)) :
+theorem step_drec {ne0 : Nat} {D : Nat → Prop} {phs : List Ph} {s : St} {held : List Key} {i : Nat} {e : Nat} {r : EdgeRec}
+    (hJ : J ne0 D phs s held) (hi : phs[i]? = some (.drec e r)) :
     ∃ ph', ((Ph.drec e r).prog.step s).1 = ph'.prog ∧
-      J ne0 nn0 C D (phs.set i ph') ((Ph.drec e r).prog.step s).2 held := by
+      J ne0 D (phs.set i ph') ((Ph.drec e r).prog.step s).2 held := by
   obtain ⟨h1, hD, h2, h3⟩ : e ≤ ne0 ∧ D e ∧ (∀ r', edgeAt s.kv e = some r' → r' = r) ∧ (∀ K ∈ req r, e ∉ L s.kv K) :=
     hJ.loc i _ hi
   refine ⟨.fin (if (s.kv (.edge e)).isSome then .ok else .storage), by simp only [Ph.prog, delTail, Prog.step], ?_⟩
   simp only [Ph.prog, delTail, Prog.step]
-  have hx1' : ∀ y ry, edgeAt (upd s.kv (.edge e) none) y = some ry → ¬ C ry.src ∧ ¬ C ry.dst := by
-    intro y ry hy
-    simp only [edgeAt_upd] at hy
-    split at hy
-    · simp at hy
-    · exact hJ.x1 y ry hy
-  apply hJ.step hi _ { s with kv := upd s.kv (.edge e) none } held (Nat.le_refl _) (Nat.le_refl _) hx1'
+  apply hJ.step hi _ { s with kv := upd s.kv (.edge e) none } held (Nat.le_refl _) (Nat.le_refl _)
   · intro y hy; simp only [edgeAt_upd]; split
     · rfl
     · exact hJ.fresh y hy
+  · intro n hn; simpa using hJ.freshN n hn
   · intro y ry hy
     simp only [edgeAt_upd, nodeEx_upd, L_upd_edge] at hy ⊢
     by_cases hye : y = e
@@ -818,7 +864,8 @@ theorem step_drec {ne0 nn0 : Nat} {C D : Nat → Prop} {phs : List Ph} {s : St} 
   · intro K; simp only [L_upd_edge]; exact hJ.e3 K
   · trivial
   · intro j ph2 hji hj
-    refine ⟨Nat.le_refl _, fun n h => by simpa using h, fun _ _ h => h, fun _ _ => by simp, ?_, ?_, ?_⟩
+    refine ⟨Nat.le_refl _, fun n h => by simpa using h, fun _ _ h => h, fun _ _ => by simp, ?_, ?_, ?_,
+      fun _ _ h => by simpa using h⟩
     · intro y hy
       have : y ≠ e := by have := ((hJ.loc j ph2 hj).creates_le hy).1; omega
       simp [this]
@@ -834,24 +881,26 @@ theorem step_drec {ne0 nn0 : Nat} {C D : Nat → Prop} {phs : List Ph} {s : St} 
       exact ⟨r2, by simpa [this] using hr2, rfl, rfl, rfl⟩
   · intro k hk; simp [Ph.holds] at hk
   · intro y hy; simp [Ph.creates] at hy
+  · intro y hy; simp [Ph.makes] at hy
 
 /-- a step that changes no view of the store (node existence, edge records, adjacency lists) -/
-theorem J.step_views {ne0 nn0 : Nat} {C D : Nat → Prop} {phs : List Ph} {s : St} {held : List Key} {i : Nat} {ph : Ph}
-    (hJ : J ne0 nn0 C D phs s held) (hi : phs[i]? = some ph) (ph' : Ph) (kv' : KV)
-    (hN : ∀ n, nodeEx s.kv n = true → nodeEx kv' n = true)
+theorem J.step_views {ne0 : Nat} {D : Nat → Prop} {phs : List Ph} {s : St} {held : List Key} {i : Nat} {ph : Ph}
+    (hJ : J ne0 D phs s held) (hi : phs[i]? = some ph) (ph' : Ph) (kv' : KV)
+    (hN : ∀ n, nodeEx kv' n = nodeEx s.kv n)
     (hE : ∀ x, edgeAt kv' x = edgeAt s.kv x) (hL : ∀ K, L kv' K = L s.kv K)
     (hexc : ∀ x K, Exc ph x K → Exc ph' x K)
-    (hloc : Local ne0 nn0 C D kv' s.ne held ph')
+    (hloc : Local ne0 D kv' s.ne held ph')
     (hexcl : ∀ k, ph'.holds = some k → ph.holds = some k ∨ k ∉ held)
-    (huniq : ∀ x, ph'.creates = some x → ph.creates = some x ∨ s.ne < x) :
-    J ne0 nn0 C D (phs.set i ph') { s with kv := kv' } held := by
+    (huniq : ∀ x, ph'.creates = some x → ph.creates = some x ∨ s.ne < x)
+    (hmk : ∀ x, ph'.makes = some x → ph.makes = some x) :
+    J ne0 D (phs.set i ph') { s with kv := kv' } held := by
   apply hJ.step hi ph' { s with kv := kv' } held (Nat.le_refl _) (Nat.le_refl _)
-  · intro x r hr; exact hJ.x1 x r (by rw [hE] at hr; exact hr)
   · intro x hx; rw [hE]; exact hJ.fresh x hx
+  · intro n hn; rw [hN]; exact hJ.freshN n hn
   · intro x r hr
-    simp only [hE, hL] at hr ⊢
+    simp only [hE, hL, hN] at hr ⊢
     obtain ⟨h1, h2, h3⟩ := hJ.e1 x r hr
-    refine ⟨hN _ h1, hN _ h2, fun K hK => ?_⟩
+    refine ⟨h1, h2, fun K hK => ?_⟩
     rcases h3 K hK with h | ⟨j, ph2, hj, hx⟩
     · exact Or.inl h
     · by_cases hji : j = i
@@ -861,15 +910,18 @@ theorem J.step_views {ne0 nn0 : Nat} {C D : Nat → Prop} {phs : List Ph} {s : S
   · intro K; rw [hL]; exact hJ.e3 K
   · exact hloc
   · intro j ph2 hji hj
-    exact ⟨Nat.le_refl _, hN, fun _ _ h => h, fun k _ => hL k, fun x _ => hE x,
+    exact ⟨Nat.le_refl _, fun n h => by rw [hN]; exact h, fun _ _ h => h, fun k _ => hL k, fun x _ => hE x,
       fun e _ => ⟨fun r hr => by rw [hE] at hr; exact hr, fun K h => by rw [hL]; exact h⟩,
-      fun e _ r hr => ⟨r, by rw [hE]; exact hr, rfl, rfl, rfl⟩⟩
+      fun e _ r hr => ⟨r, by rw [hE]; exact hr, rfl, rfl, rfl⟩, fun n _ h => by rw [hN]; exact h⟩
   · exact hexcl
   · exact huniq
+  · exact fun x hx => Or.inl (hmk x hx)
 
-/-- no adjacency list of a node of `C` has an entry: no edge record has such an endpoint -/
-theorem J.list_of_C_empty {ne0 nn0 : Nat} {C D : Nat → Prop} {phs : List Ph} {s : St} {held : List Key}
-    (hJ : J ne0 nn0 C D phs s held) {id : Nat} (hC : C id) : L s.kv (.out id) = [] ∧ L s.kv (.inn id) = [] := by
+/-- the adjacency lists of a node that is not visible are empty: every listed edge has a record
+    (`e2`), and both endpoints of every edge record are visible (`e1`) -/
+theorem J.lists_of_invisible_node {ne0 : Nat} {D : Nat → Prop} {phs : List Ph} {s : St} {held : List Key}
+    (hJ : J ne0 D phs s held) {id : Nat} (hid : nodeEx s.kv id = false) :
+    L s.kv (.out id) = [] ∧ L s.kv (.inn id) = [] := by
   have key : ∀ K, (K = .out id ∨ K = .inn id) → L s.kv K = [] := by
     intro K hK
     cases hl : L s.kv K with
@@ -877,128 +929,171 @@ theorem J.list_of_C_empty {ne0 nn0 : Nat} {C D : Nat → Prop} {phs : List Ph} {
     | cons x xs =>
       exfalso
       obtain ⟨r, hr, hreq⟩ := hJ.e2 K x (by rw [hl]; simp)
-      obtain ⟨c1, c2⟩ := hJ.x1 x r hr
+      obtain ⟨c1, c2, _⟩ := hJ.e1 x r hr
       have hend : id = r.src ∨ id = r.dst := by
         unfold req at hreq
         rcases hK with rfl | rfl <;> cases hd : r.directed <;> simp [hd] at hreq <;> grind
       rcases hend with h | h
-      · rw [h] at hC; exact c1 hC
-      · rw [h] at hC; exact c2 hC
+      · rw [h, c1] at hid; cases hid
+      · rw [h, c2] at hid; cases hid
   exact ⟨key _ (Or.inl rfl), key _ (Or.inr rfl)⟩
 
-theorem step_cnP1 {ne0 nn0 : Nat} {C D : Nat → Prop} {phs : List Ph} {s : St} {held : List Key} {i : Nat} {id l v : Nat}
-    (hJ : J ne0 nn0 C D phs s held) (hi : phs[i]? = some (.cnP1 id l v)) :
+theorem step_cnP1 {ne0 : Nat} {D : Nat → Prop} {phs : List Ph} {s : St} {held : List Key} {i : Nat} {id l v : Nat}
+    (hJ : J ne0 D phs s held) (hi : phs[i]? = some (.cnP1 id l v)) :
     ∃ ph', ((Ph.cnP1 id l v).prog.step s).1 = ph'.prog ∧
-      J ne0 nn0 C D (phs.set i ph') ((Ph.cnP1 id l v).prog.step s).2 held := by
-  have hC : C id := hJ.loc i _ hi
-  refine ⟨.cnP2 id, by simp only [Ph.prog, createNodeFrom, Prog.step], ?_⟩
+      J ne0 D (phs.set i ph') ((Ph.cnP1 id l v).prog.step s).2 held := by
+  have hid : nodeEx s.kv id = false := hJ.loc i _ hi
+  obtain ⟨ho, _⟩ := hJ.lists_of_invisible_node hid
+  refine ⟨.cnP2 id l v, by simp only [Ph.prog, createNodeFrom, Prog.step], ?_⟩
   simp only [Ph.prog, createNodeFrom, Prog.step]
   apply hJ.step_views hi
-  · intro n hn; simp only [nodeEx_upd]; split
-    · rfl
-    · exact hn
-  · intro x; simp
-  · intro K; simp
-  · intro x K h; simp [Exc] at h
-  · exact hC
-  · intro k hk; simp [Ph.holds] at hk
-  · intro x hx; simp [Ph.creates] at hx
-
-theorem step_cnP2 {ne0 nn0 : Nat} {C D : Nat → Prop} {phs : List Ph} {s : St} {held : List Key} {i : Nat} {id : Nat}
-    (hJ : J ne0 nn0 C D phs s held) (hi : phs[i]? = some (.cnP2 id)) :
-    ∃ ph', ((Ph.cnP2 id).prog.step s).1 = ph'.prog ∧
-      J ne0 nn0 C D (phs.set i ph') ((Ph.cnP2 id).prog.step s).2 held := by
-  have hC : C id := hJ.loc i _ hi
-  obtain ⟨ho, _⟩ := hJ.list_of_C_empty hC
-  refine ⟨.cnP3 id, by simp only [Ph.prog, Prog.step], ?_⟩
-  simp only [Ph.prog, Prog.step]
-  apply hJ.step_views hi
-  · intro n hn; rw [nodeEx_upd_list _ _ _ _ rfl]; exact hn
+  · intro n; exact nodeEx_upd_list _ _ _ _ rfl
   · intro x; exact edgeAt_upd_list _ _ _ _ rfl
   · intro K; rw [L_upd_list _ _ _ _ rfl]; split
     · rename_i h; subst h; exact ho.symm
     · rfl
   · intro x K h; simp [Exc] at h
-  · exact hC
+  · show nodeEx _ id = false
+    rw [nodeEx_upd_list _ _ _ _ rfl]; exact hid
   · intro k hk; simp [Ph.holds] at hk
   · intro x hx; simp [Ph.creates] at hx
+  · intro x hx; simpa [Ph.makes] using hx
 
-theorem step_cnP3 {ne0 nn0 : Nat} {C D : Nat → Prop} {phs : List Ph} {s : St} {held : List Key} {i : Nat} {id : Nat}
-    (hJ : J ne0 nn0 C D phs s held) (hi : phs[i]? = some (.cnP3 id)) :
-    ∃ ph', ((Ph.cnP3 id).prog.step s).1 = ph'.prog ∧
-      J ne0 nn0 C D (phs.set i ph') ((Ph.cnP3 id).prog.step s).2 held := by
-  have hC : C id := hJ.loc i _ hi
-  obtain ⟨_, hin⟩ := hJ.list_of_C_empty hC
-  refine ⟨.fin (.id id), by simp only [Ph.prog, Prog.step], ?_⟩
+theorem step_cnP2 {ne0 : Nat} {D : Nat → Prop} {phs : List Ph} {s : St} {held : List Key} {i : Nat} {id l v : Nat}
+    (hJ : J ne0 D phs s held) (hi : phs[i]? = some (.cnP2 id l v)) :
+    ∃ ph', ((Ph.cnP2 id l v).prog.step s).1 = ph'.prog ∧
+      J ne0 D (phs.set i ph') ((Ph.cnP2 id l v).prog.step s).2 held := by
+  have hid : nodeEx s.kv id = false := hJ.loc i _ hi
+  obtain ⟨_, hin⟩ := hJ.lists_of_invisible_node hid
+  refine ⟨.cnP3 id l v, by simp only [Ph.prog, Prog.step], ?_⟩
   simp only [Ph.prog, Prog.step]
   apply hJ.step_views hi
-  · intro n hn; rw [nodeEx_upd_list _ _ _ _ rfl]; exact hn
+  · intro n; exact nodeEx_upd_list _ _ _ _ rfl
   · intro x; exact edgeAt_upd_list _ _ _ _ rfl
   · intro K; rw [L_upd_list _ _ _ _ rfl]; split
     · rename_i h; subst h; exact hin.symm
     · rfl
   · intro x K h; simp [Exc] at h
-  · trivial
+  · show nodeEx _ id = false
+    rw [nodeEx_upd_list _ _ _ _ rfl]; exact hid
   · intro k hk; simp [Ph.holds] at hk
   · intro x hx; simp [Ph.creates] at hx
+  · intro x hx; simpa [Ph.makes] using hx
 
-theorem step_alA {ne0 nn0 : Nat} {C D : Nat → Prop} {phs : List Ph} {s : St} {held : List Key} {i : Nat} {n l : Nat}
-    (hJ : J ne0 nn0 C D phs s held) (hi : phs[i]? = some (.alA n l)) :
-    ∃ ph', ((Ph.alA n l).prog.step s).1 = ph'.prog ∧
-      J ne0 nn0 C D (phs.set i ph') ((Ph.alA n l).prog.step s).2 held := by
-  simp only [Ph.prog, addLabelProg, Prog.step]
-  have key : ∀ ph' : Ph, (∀ x K, ¬ Exc ph' x K) → ph'.holds = none → ph'.creates = none →
-      Local ne0 nn0 C D s.kv s.ne held ph' → J ne0 nn0 C D (phs.set i ph') s held := by
-    intro ph' h1 h2 h3 h4
-    exact hJ.step_same hi _ s.ne held (Nat.le_refl _) (fun x K h => by simp [Exc] at h) h4
-      (fun _ _ _ _ _ _ h => h) (fun k hk => by simp [h2] at hk) (fun x hx => by simp [h3] at hx)
-  cases hv : s.kv (.node n) with
-  | none => exact ⟨.fin (.nodeNotFound n), by simp [Ph.prog], key _ (by simp [Exc]) rfl rfl trivial⟩
-  | some val =>
-    simp only
-    split
-    · exact ⟨.fin .ok, by simp [Ph.prog], key _ (by simp [Exc]) rfl rfl trivial⟩
-    · exact ⟨.lbB n (labelsOf val ++ [l]), by simp [Ph.prog], key _ (by simp [Exc]) rfl rfl trivial⟩
+/-- a thread writes the record of node `n` (a node no OTHER thread is about to make visible) and
+    finishes its operation: only `nodeEx n` may change, to `true` -/
+theorem J.step_putNode {ne0 : Nat} {D : Nat → Prop} {phs : List Ph} {s : St} {held : List Key} {i : Nat} {ph : Ph}
+    (hJ : J ne0 D phs s held) (hi : phs[i]? = some ph) (n : Nat) (val : Val) (res : Res)
+    (hle : n ≤ s.nn)
+    (hother : ∀ (j : Nat) (ph2 : Ph), j ≠ i → phs[j]? = some ph2 → ph2.makes ≠ some n)
+    (hexc : ∀ x K, ¬ Exc ph x K) :
+    J ne0 D (phs.set i (.fin res)) { s with kv := upd s.kv (.node n) (some val) } held := by
+  have hN : ∀ m, nodeEx s.kv m = true → nodeEx (upd s.kv (.node n) (some val)) m = true := by
+    intro m hm; simp only [nodeEx_upd]; split
+    · rfl
+    · exact hm
+  apply hJ.step hi _ { s with kv := upd s.kv (.node n) (some val) } held (Nat.le_refl _) (Nat.le_refl _)
+  · intro y hy; simp; exact hJ.fresh y hy
+  · intro m hm
+    have hne : m ≠ n := by simp at hm; omega
+    simp [hne]; exact hJ.freshN m hm
+  · intro y ry hy
+    simp only [edgeAt_upd, L_upd_node] at hy ⊢
+    simp at hy
+    obtain ⟨a1, a2, a3⟩ := hJ.e1 y ry hy
+    refine ⟨hN _ a1, hN _ a2, fun K hK => ?_⟩
+    rcases a3 K hK with h | ⟨j, ph2, hj, he⟩
+    · exact Or.inl h
+    · by_cases hji : j = i
+      · subst hji; rw [hi] at hj; cases hj; exact absurd he (hexc y K)
+      · exact Or.inr (Or.inr ⟨j, ph2, hji, hj, he⟩)
+  · intro K z hz
+    simp only [L_upd_node] at hz
+    obtain ⟨rz, hrz, hK⟩ := hJ.e2 K z hz
+    exact ⟨rz, by simpa using hrz, hK⟩
+  · intro K; simp only [L_upd_node]; exact hJ.e3 K
+  · trivial
+  · intro j ph2 hji hj
+    refine ⟨Nat.le_refl _, hN, fun _ _ h => h, fun _ _ => by simp, fun y _ => by simp,
+      fun e _ => ⟨fun r hr => by simpa using hr, fun K h => by simpa using h⟩,
+      fun e _ r hr => ⟨r, by simpa using hr, rfl, rfl, rfl⟩, ?_⟩
+    intro id hid h
+    have hne : id ≠ n := by rintro rfl; exact hother j ph2 hji hj hid
+    simp [hne]; exact h
+  · intro k hk; simp [Ph.holds] at hk
+  · intro y hy; simp [Ph.creates] at hy
+  · intro y hy; simp [Ph.makes] at hy
 
-theorem step_rlA {ne0 nn0 : Nat} {C D : Nat → Prop} {phs : List Ph} {s : St} {held : List Key} {i : Nat} {n l : Nat}
-    (hJ : J ne0 nn0 C D phs s held) (hi : phs[i]? = some (.rlA n l)) :
-    ∃ ph', ((Ph.rlA n l).prog.step s).1 = ph'.prog ∧
-      J ne0 nn0 C D (phs.set i ph') ((Ph.rlA n l).prog.step s).2 held := by
-  simp only [Ph.prog, removeLabelProg, Prog.step]
-  have key : ∀ ph' : Ph, (∀ x K, ¬ Exc ph' x K) → ph'.holds = none → ph'.creates = none →
-      Local ne0 nn0 C D s.kv s.ne held ph' → J ne0 nn0 C D (phs.set i ph') s held := by
-    intro ph' h1 h2 h3 h4
-    exact hJ.step_same hi _ s.ne held (Nat.le_refl _) (fun x K h => by simp [Exc] at h) h4
-      (fun _ _ _ _ _ _ h => h) (fun k hk => by simp [h2] at hk) (fun x hx => by simp [h3] at hx)
-  cases hv : s.kv (.node n) with
-  | none => exact ⟨.fin (.nodeNotFound n), by simp [Ph.prog], key _ (by simp [Exc]) rfl rfl trivial⟩
-  | some val =>
-    simp only
-    split
-    · exact ⟨.lbB n ((labelsOf val).filter (fun x => x != l)), by simp [Ph.prog], key _ (by simp [Exc]) rfl rfl trivial⟩
-    · exact ⟨.fin .ok, by simp [Ph.prog], key _ (by simp [Exc]) rfl rfl trivial⟩
-
-theorem step_lbB {ne0 nn0 : Nat} {C D : Nat → Prop} {phs : List Ph} {s : St} {held : List Key} {i : Nat} {n : Nat}
-    {labs : List Nat}
-    (hJ : J ne0 nn0 C D phs s held) (hi : phs[i]? = some (.lbB n labs)) :
-    ∃ ph', ((Ph.lbB n labs).prog.step s).1 = ph'.prog ∧
-      J ne0 nn0 C D (phs.set i ph') ((Ph.lbB n labs).prog.step s).2 held := by
+theorem step_cnP3 {ne0 : Nat} {D : Nat → Prop} {phs : List Ph} {s : St} {held : List Key} {i : Nat} {id l v : Nat}
+    (hJ : J ne0 D phs s held) (hi : phs[i]? = some (.cnP3 id l v)) :
+    ∃ ph', ((Ph.cnP3 id l v).prog.step s).1 = ph'.prog ∧
+      J ne0 D (phs.set i ph') ((Ph.cnP3 id l v).prog.step s).2 held := by
+  refine ⟨.fin (.id id), by simp only [Ph.prog, Prog.step], ?_⟩
   simp only [Ph.prog, Prog.step]
-  have key : ∀ ph' : Ph, (∀ x K, ¬ Exc ph' x K) → ph'.holds = none → ph'.creates = none →
-      Local ne0 nn0 C D s.kv s.ne held ph' → J ne0 nn0 C D (phs.set i ph') s held := by
-    intro ph' h1 h2 h3 h4
+  exact hJ.step_putNode hi id _ _ (hJ.mkle i _ id hi rfl)
+    (fun j ph2 hji hj => hJ.uniqN j i ph2 _ hji hj hi id |> fun f hm => f hm rfl)
+    (fun x K h => by simp [Exc] at h)
+
+theorem step_alA {ne0 : Nat} {D : Nat → Prop} {phs : List Ph} {s : St} {held : List Key} {i : Nat} {n l : Nat}
+    (hJ : J ne0 D phs s held) (hi : phs[i]? = some (.alA n l)) :
+    ∃ ph', ((Ph.alA n l).prog.step s).1 = ph'.prog ∧
+      J ne0 D (phs.set i ph') ((Ph.alA n l).prog.step s).2 held := by
+  simp only [Ph.prog, addLabelProg, Prog.step]
+  have key : ∀ ph' : Ph, (∀ x K, ¬ Exc ph' x K) → ph'.holds = none → ph'.creates = none → ph'.makes = none →
+      Local ne0 D s.kv s.ne held ph' → J ne0 D (phs.set i ph') s held := by
+    intro ph' h1 h2 h3 hm h4
     exact hJ.step_same hi _ s.ne held (Nat.le_refl _) (fun x K h => by simp [Exc] at h) h4
       (fun _ _ _ _ _ _ h => h) (fun k hk => by simp [h2] at hk) (fun x hx => by simp [h3] at hx)
+      (fun x hx => by simp [hm] at hx)
   cases hv : s.kv (.node n) with
-  | none => exact ⟨.fin (.nodeNotFound n), by simp [Ph.prog, labelPut], key _ (by simp [Exc]) rfl rfl trivial⟩
+  | none => exact ⟨.fin (.nodeNotFound n), by simp [Ph.prog], key _ (by simp [Exc]) rfl rfl rfl trivial⟩
   | some val =>
-    exact ⟨.unP n (.node labs (propOf val)), by simp [Ph.prog, labelPut], key _ (by simp [Exc]) rfl rfl trivial⟩
+    simp only
+    split
+    · exact ⟨.fin .ok, by simp [Ph.prog], key _ (by simp [Exc]) rfl rfl rfl trivial⟩
+    · exact ⟨.lbB n (labelsOf val ++ [l]), by simp [Ph.prog], key _ (by simp [Exc]) rfl rfl rfl trivial⟩
 
-theorem step_unA {ne0 nn0 : Nat} {C D : Nat → Prop} {phs : List Ph} {s : St} {held : List Key} {i : Nat} {n : Nat}
+theorem step_rlA {ne0 : Nat} {D : Nat → Prop} {phs : List Ph} {s : St} {held : List Key} {i : Nat} {n l : Nat}
+    (hJ : J ne0 D phs s held) (hi : phs[i]? = some (.rlA n l)) :
+    ∃ ph', ((Ph.rlA n l).prog.step s).1 = ph'.prog ∧
+      J ne0 D (phs.set i ph') ((Ph.rlA n l).prog.step s).2 held := by
+  simp only [Ph.prog, removeLabelProg, Prog.step]
+  have key : ∀ ph' : Ph, (∀ x K, ¬ Exc ph' x K) → ph'.holds = none → ph'.creates = none → ph'.makes = none →
+      Local ne0 D s.kv s.ne held ph' → J ne0 D (phs.set i ph') s held := by
+    intro ph' h1 h2 h3 hm h4
+    exact hJ.step_same hi _ s.ne held (Nat.le_refl _) (fun x K h => by simp [Exc] at h) h4
+      (fun _ _ _ _ _ _ h => h) (fun k hk => by simp [h2] at hk) (fun x hx => by simp [h3] at hx)
+      (fun x hx => by simp [hm] at hx)
+  cases hv : s.kv (.node n) with
+  | none => exact ⟨.fin (.nodeNotFound n), by simp [Ph.prog], key _ (by simp [Exc]) rfl rfl rfl trivial⟩
+  | some val =>
+    simp only
+    split
+    · exact ⟨.lbB n ((labelsOf val).filter (fun x => x != l)), by simp [Ph.prog], key _ (by simp [Exc]) rfl rfl rfl trivial⟩
+    · exact ⟨.fin .ok, by simp [Ph.prog], key _ (by simp [Exc]) rfl rfl rfl trivial⟩
+
+theorem step_lbB {ne0 : Nat} {D : Nat → Prop} {phs : List Ph} {s : St} {held : List Key} {i : Nat} {n : Nat}
+    {labs : List Nat}
+    (hJ : J ne0 D phs s held) (hi : phs[i]? = some (.lbB n labs)) :
+    ∃ ph', ((Ph.lbB n labs).prog.step s).1 = ph'.prog ∧
+      J ne0 D (phs.set i ph') ((Ph.lbB n labs).prog.step s).2 held := by
+  simp only [Ph.prog, Prog.step]
+  have key : ∀ ph' : Ph, (∀ x K, ¬ Exc ph' x K) → ph'.holds = none → ph'.creates = none → ph'.makes = none →
+      Local ne0 D s.kv s.ne held ph' → J ne0 D (phs.set i ph') s held := by
+    intro ph' h1 h2 h3 hm h4
+    exact hJ.step_same hi _ s.ne held (Nat.le_refl _) (fun x K h => by simp [Exc] at h) h4
+      (fun _ _ _ _ _ _ h => h) (fun k hk => by simp [h2] at hk) (fun x hx => by simp [h3] at hx)
+      (fun x hx => by simp [hm] at hx)
+  cases hv : s.kv (.node n) with
+  | none => exact ⟨.fin (.nodeNotFound n), by simp [Ph.prog, labelPut], key _ (by simp [Exc]) rfl rfl rfl trivial⟩
+  | some val =>
+    exact ⟨.unP n (.node labs (propOf val)), by simp [Ph.prog, labelPut], key _ (by simp [Exc]) rfl rfl rfl (by simp [Local, nodeEx, hv])⟩
+
+theorem step_unA {ne0 : Nat} {D : Nat → Prop} {phs : List Ph} {s : St} {held : List Key} {i : Nat} {n : Nat}
     {lab : Option Nat} {v : Nat}
-    (hJ : J ne0 nn0 C D phs s held) (hi : phs[i]? = some (.unA n lab v)) :
+    (hJ : J ne0 D phs s held) (hi : phs[i]? = some (.unA n lab v)) :
     ∃ ph', ((Ph.unA n lab v).prog.step s).1 = ph'.prog ∧
-      J ne0 nn0 C D (phs.set i ph') ((Ph.unA n lab v).prog.step s).2 held := by
+      J ne0 D (phs.set i ph') ((Ph.unA n lab v).prog.step s).2 held := by
   simp only [Ph.prog, updateNodeProg, Prog.step]
   cases hv : s.kv (.node n) with
   | none =>
@@ -1010,65 +1105,47 @@ theorem step_unA {ne0 nn0 : Nat} {C D : Nat → Prop} {phs : List Ph} {s : St} {
     exact hJ.step_same hi _ s.ne held (Nat.le_refl _) (fun x K h => by simp [Exc] at h) trivial
       (fun _ _ _ _ _ _ h => h) (fun k hk => by simp [Ph.holds] at hk) (fun x hx => by simp [Ph.creates] at hx)
 
-theorem step_unB {ne0 nn0 : Nat} {C D : Nat → Prop} {phs : List Ph} {s : St} {held : List Key} {i : Nat} {n : Nat}
+theorem step_unB {ne0 : Nat} {D : Nat → Prop} {phs : List Ph} {s : St} {held : List Key} {i : Nat} {n : Nat}
     {lab : Option Nat} {v : Nat}
-    (hJ : J ne0 nn0 C D phs s held) (hi : phs[i]? = some (.unB n lab v)) :
+    (hJ : J ne0 D phs s held) (hi : phs[i]? = some (.unB n lab v)) :
     ∃ ph', ((Ph.unB n lab v).prog.step s).1 = ph'.prog ∧
-      J ne0 nn0 C D (phs.set i ph') ((Ph.unB n lab v).prog.step s).2 held := by
+      J ne0 D (phs.set i ph') ((Ph.unB n lab v).prog.step s).2 held := by
   simp only [Ph.prog, updateNodeSecond, Prog.step]
-  have key : ∀ ph' : Ph, (∀ x K, ¬ Exc ph' x K) → ph'.holds = none → ph'.creates = none →
-      Local ne0 nn0 C D s.kv s.ne held ph' → J ne0 nn0 C D (phs.set i ph') s held := by
-    intro ph' h1 h2 h3 h4
+  have key : ∀ ph' : Ph, (∀ x K, ¬ Exc ph' x K) → ph'.holds = none → ph'.creates = none → ph'.makes = none →
+      Local ne0 D s.kv s.ne held ph' → J ne0 D (phs.set i ph') s held := by
+    intro ph' h1 h2 h3 hm h4
     exact hJ.step_same hi _ s.ne held (Nat.le_refl _) (fun x K h => by simp [Exc] at h) h4
       (fun _ _ _ _ _ _ h => h) (fun k hk => by simp [h2] at hk) (fun x hx => by simp [h3] at hx)
+      (fun x hx => by simp [hm] at hx)
   cases hv : s.kv (.node n) with
-  | none => exact ⟨.fin (.nodeNotFound n), by simp [Ph.prog, updateNodePut], key _ (by simp [Exc]) rfl rfl trivial⟩
+  | none => exact ⟨.fin (.nodeNotFound n), by simp [Ph.prog, updateNodePut], key _ (by simp [Exc]) rfl rfl rfl trivial⟩
   | some val =>
     cases val with
-    | node l v0 => exact ⟨.unP n (.node ((lab.map fun x => [x]).getD l) v), by simp [Ph.prog, updateNodePut], key _ (by simp [Exc]) rfl rfl trivial⟩
-    | edge r => exact ⟨.unP n (.node ((lab.map fun x => [x]).getD []) v), by simp [Ph.prog, updateNodePut], key _ (by simp [Exc]) rfl rfl trivial⟩
-    | list l => exact ⟨.unP n (.node ((lab.map fun x => [x]).getD []) v), by simp [Ph.prog, updateNodePut], key _ (by simp [Exc]) rfl rfl trivial⟩
+    | node l v0 => exact ⟨.unP n (.node ((lab.map fun x => [x]).getD l) v), by simp [Ph.prog, updateNodePut], key _ (by simp [Exc]) rfl rfl rfl (by simp [Local, nodeEx, hv])⟩
+    | edge r => exact ⟨.unP n (.node ((lab.map fun x => [x]).getD []) v), by simp [Ph.prog, updateNodePut], key _ (by simp [Exc]) rfl rfl rfl (by simp [Local, nodeEx, hv])⟩
+    | list l => exact ⟨.unP n (.node ((lab.map fun x => [x]).getD []) v), by simp [Ph.prog, updateNodePut], key _ (by simp [Exc]) rfl rfl rfl (by simp [Local, nodeEx, hv])⟩
 
-theorem step_unP {ne0 nn0 : Nat} {C D : Nat → Prop} {phs : List Ph} {s : St} {held : List Key} {i : Nat} {n : Nat} {val : Val}
-    (hJ : J ne0 nn0 C D phs s held) (hi : phs[i]? = some (.unP n val)) :
+theorem step_unP {ne0 : Nat} {D : Nat → Prop} {phs : List Ph} {s : St} {held : List Key} {i : Nat} {n : Nat} {val : Val}
+    (hJ : J ne0 D phs s held) (hi : phs[i]? = some (.unP n val)) :
     ∃ ph', ((Ph.unP n val).prog.step s).1 = ph'.prog ∧
-      J ne0 nn0 C D (phs.set i ph') ((Ph.unP n val).prog.step s).2 held := by
+      J ne0 D (phs.set i ph') ((Ph.unP n val).prog.step s).2 held := by
+  have hn : nodeEx s.kv n = true := hJ.loc i _ hi
   refine ⟨.fin .ok, by simp only [Ph.prog, Prog.step], ?_⟩
   simp only [Ph.prog, Prog.step]
-  have hN : ∀ m, nodeEx s.kv m = true → nodeEx (upd s.kv (.node n) (some val)) m = true := by
-    intro m hm; simp only [nodeEx_upd]; split
-    · rfl
-    · exact hm
-  apply hJ.step hi _ { s with kv := upd s.kv (.node n) (some val) } held (Nat.le_refl _) (Nat.le_refl _)
-    (fun y ry hy => hJ.x1 y ry (by simpa using hy))
-  · intro y hy; simp; exact hJ.fresh y hy
-  · intro y ry hy
-    simp only [edgeAt_upd, L_upd_node] at hy ⊢
-    simp at hy
-    obtain ⟨a1, a2, a3⟩ := hJ.e1 y ry hy
-    refine ⟨hN _ a1, hN _ a2, fun K hK => ?_⟩
-    rcases a3 K hK with h | ⟨j, ph2, hj, he⟩
-    · exact Or.inl h
-    · by_cases hji : j = i
-      · subst hji; rw [hi] at hj; cases hj; simp [Exc] at he
-      · exact Or.inr (Or.inr ⟨j, ph2, hji, hj, he⟩)
-  · intro K z hz
-    simp only [L_upd_node] at hz
-    obtain ⟨rz, hrz, hK⟩ := hJ.e2 K z hz
-    exact ⟨rz, by simpa using hrz, hK⟩
-  · intro K; simp only [L_upd_node]; exact hJ.e3 K
-  · trivial
-  · intro j ph2 hji hj
-    exact ⟨Nat.le_refl _, hN, fun _ _ h => h, fun _ _ => by simp, fun y _ => by simp,
-      fun e _ => ⟨fun r hr => by simpa using hr, fun K h => by simpa using h⟩,
-      fun e _ r hr => ⟨r, by simpa using hr, rfl, rfl, rfl⟩⟩
-  · intro k hk; simp [Ph.holds] at hk
-  · intro y hy; simp [Ph.creates] at hy
+  refine hJ.step_putNode hi n val .ok ?_ ?_ (fun x K h => by simp [Exc] at h)
+  · rcases Nat.lt_or_ge s.nn n with h | h
+    · rw [hJ.freshN n h] at hn; cases hn
+    · exact h
+  · intro j ph2 hji hj hm
+    have : nodeEx s.kv n = false := by
+      have hl := hJ.loc j ph2 hj
+      cases ph2 <;> simp [Ph.makes] at hm <;> subst hm <;> exact hl
+    rw [hn] at this; cases this
 
-theorem step_ueA {ne0 nn0 : Nat} {C D : Nat → Prop} {phs : List Ph} {s : St} {held : List Key} {i : Nat} {e v : Nat}
-    (hJ : J ne0 nn0 C D phs s held) (hi : phs[i]? = some (.ueA e v)) :
+theorem step_ueA {ne0 : Nat} {D : Nat → Prop} {phs : List Ph} {s : St} {held : List Key} {i : Nat} {e v : Nat}
+    (hJ : J ne0 D phs s held) (hi : phs[i]? = some (.ueA e v)) :
     ∃ ph', ((Ph.ueA e v).prog.step s).1 = ph'.prog ∧
-      J ne0 nn0 C D (phs.set i ph') ((Ph.ueA e v).prog.step s).2 held := by
+      J ne0 D (phs.set i ph') ((Ph.ueA e v).prog.step s).2 held := by
   have hl : e ≤ ne0 ∧ ¬ D e := hJ.loc i _ hi
   simp only [Ph.prog, updateEdgeProg, Prog.step]
   cases hv : edgeOf (s.kv (.edge e)) with
@@ -1081,52 +1158,46 @@ theorem step_ueA {ne0 nn0 : Nat} {C D : Nat → Prop} {phs : List Ph} {s : St} {
     exact hJ.step_same hi _ s.ne held (Nat.le_refl _) (fun x K h => by simp [Exc] at h) hl
       (fun _ _ _ _ _ _ h => h) (fun k hk => by simp [Ph.holds] at hk) (fun x hx => by simp [Ph.creates] at hx)
 
-theorem step_ueB {ne0 nn0 : Nat} {C D : Nat → Prop} {phs : List Ph} {s : St} {held : List Key} {i : Nat} {e v : Nat}
-    (hJ : J ne0 nn0 C D phs s held) (hi : phs[i]? = some (.ueB e v)) :
+theorem step_ueB {ne0 : Nat} {D : Nat → Prop} {phs : List Ph} {s : St} {held : List Key} {i : Nat} {e v : Nat}
+    (hJ : J ne0 D phs s held) (hi : phs[i]? = some (.ueB e v)) :
     ∃ ph', ((Ph.ueB e v).prog.step s).1 = ph'.prog ∧
-      J ne0 nn0 C D (phs.set i ph') ((Ph.ueB e v).prog.step s).2 held := by
+      J ne0 D (phs.set i ph') ((Ph.ueB e v).prog.step s).2 held := by
   obtain ⟨hl, hD⟩ : e ≤ ne0 ∧ ¬ D e := hJ.loc i _ hi
   simp only [Ph.prog, updateEdgeSecond, Prog.step]
-  have key : ∀ ph' : Ph, (∀ x K, ¬ Exc ph' x K) → ph'.holds = none → ph'.creates = none →
-      Local ne0 nn0 C D s.kv s.ne held ph' → J ne0 nn0 C D (phs.set i ph') s held := by
-    intro ph' h1 h2 h3 h4
+  have key : ∀ ph' : Ph, (∀ x K, ¬ Exc ph' x K) → ph'.holds = none → ph'.creates = none → ph'.makes = none →
+      Local ne0 D s.kv s.ne held ph' → J ne0 D (phs.set i ph') s held := by
+    intro ph' h1 h2 h3 hm h4
     exact hJ.step_same hi _ s.ne held (Nat.le_refl _) (fun x K h => by simp [Exc] at h) h4
       (fun _ _ _ _ _ _ h => h) (fun k hk => by simp [h2] at hk) (fun x hx => by simp [h3] at hx)
+      (fun x hx => by simp [hm] at hx)
   cases hv : s.kv (.edge e) with
-  | none => exact ⟨.fin (.edgeNotFound e), by simp [Ph.prog, updateEdgePut], key _ (by simp [Exc]) rfl rfl trivial⟩
+  | none => exact ⟨.fin (.edgeNotFound e), by simp [Ph.prog, updateEdgePut], key _ (by simp [Exc]) rfl rfl rfl trivial⟩
   | some val =>
     cases val with
     | edge r =>
-      refine ⟨.ueP e r v, by simp [Ph.prog, updateEdgePut], key _ (by simp [Exc]) rfl rfl ?_⟩
+      refine ⟨.ueP e r v, by simp [Ph.prog, updateEdgePut], key _ (by simp [Exc]) rfl rfl rfl ?_⟩
       exact ⟨hl, hD, r, by simp [edgeAt, hv], rfl, rfl, rfl⟩
     | node l v0 =>
-      refine ⟨.ueO e (.node l v0), by simp [Ph.prog, updateEdgePut], key _ (by simp [Exc]) rfl rfl ?_⟩
+      refine ⟨.ueO e (.node l v0), by simp [Ph.prog, updateEdgePut], key _ (by simp [Exc]) rfl rfl rfl ?_⟩
       exact ⟨hl, rfl, by simp [edgeAt, hv, edgeOf]⟩
     | list l =>
-      refine ⟨.ueO e (.list l), by simp [Ph.prog, updateEdgePut], key _ (by simp [Exc]) rfl rfl ?_⟩
+      refine ⟨.ueO e (.list l), by simp [Ph.prog, updateEdgePut], key _ (by simp [Exc]) rfl rfl rfl ?_⟩
       exact ⟨hl, rfl, by simp [edgeAt, hv, edgeOf]⟩
 
-theorem step_ueP {ne0 nn0 : Nat} {C D : Nat → Prop} {phs : List Ph} {s : St} {held : List Key} {i : Nat} {e : Nat}
+theorem step_ueP {ne0 : Nat} {D : Nat → Prop} {phs : List Ph} {s : St} {held : List Key} {i : Nat} {e : Nat}
     {r : EdgeRec} {v : Nat}
-    (hJ : J ne0 nn0 C D phs s held) (hi : phs[i]? = some (.ueP e r v)) :
+    (hJ : J ne0 D phs s held) (hi : phs[i]? = some (.ueP e r v)) :
     ∃ ph', ((Ph.ueP e r v).prog.step s).1 = ph'.prog ∧
-      J ne0 nn0 C D (phs.set i ph') ((Ph.ueP e r v).prog.step s).2 held := by
+      J ne0 D (phs.set i ph') ((Ph.ueP e r v).prog.step s).2 held := by
   obtain ⟨hl, hD, r', hr', hs⟩ : e ≤ ne0 ∧ ¬ D e ∧ ∃ r', edgeAt s.kv e = some r' ∧ sameShape r' r := hJ.loc i _ hi
   have hs' : sameShape { r with ver := v } r' := ⟨hs.1.symm, hs.2.1.symm, hs.2.2.symm⟩
   refine ⟨.fin .ok, by simp only [Ph.prog, Prog.step], ?_⟩
   simp only [Ph.prog, Prog.step]
-  have hx1' : ∀ y ry, edgeAt (upd s.kv (.edge e) (some (.edge { r with ver := v }))) y = some ry → ¬ C ry.src ∧ ¬ C ry.dst := by
-    intro y ry hy
-    simp only [edgeAt_upd] at hy
-    split at hy
-    · simp at hy; subst hy
-      have := hJ.x1 e r' hr'
-      rw [hs.1, hs.2.1] at this; exact this
-    · exact hJ.x1 y ry hy
-  apply hJ.step hi _ { s with kv := upd s.kv (.edge e) (some (.edge { r with ver := v })) } held (Nat.le_refl _) (Nat.le_refl _) hx1'
+  apply hJ.step hi _ { s with kv := upd s.kv (.edge e) (some (.edge { r with ver := v })) } held (Nat.le_refl _) (Nat.le_refl _)
   · intro y hy
     have : y ≠ e := by have := hJ.ne_ge; simp at hy; omega
     simp [this]; exact hJ.fresh y hy
+  · intro n hn; simpa using hJ.freshN n hn
   · intro y ry hy
     simp only [edgeAt_upd, nodeEx_upd, L_upd_edge] at hy ⊢
     by_cases hye : y = e
@@ -1157,7 +1228,8 @@ theorem step_ueP {ne0 nn0 : Nat} {C D : Nat → Prop} {phs : List Ph} {s : St} {
   · intro K; simp only [L_upd_edge]; exact hJ.e3 K
   · trivial
   · intro j ph2 hji hj
-    refine ⟨Nat.le_refl _, fun n h => by simpa using h, fun _ _ h => h, fun _ _ => by simp, ?_, ?_, ?_⟩
+    refine ⟨Nat.le_refl _, fun n h => by simpa using h, fun _ _ h => h, fun _ _ => by simp, ?_, ?_, ?_,
+      fun _ _ h => by simpa using h⟩
     · intro y hy
       have : y ≠ e := by have := ((hJ.loc j ph2 hj).creates_le hy).1; omega
       simp [this]
@@ -1175,11 +1247,12 @@ theorem step_ueP {ne0 nn0 : Nat} {C D : Nat → Prop} {phs : List Ph} {s : St} {
       · exact ⟨r2, by simpa [h2] using hr2, rfl, rfl, rfl⟩
   · intro k hk; simp [Ph.holds] at hk
   · intro y hy; simp [Ph.creates] at hy
+  · intro y hy; simp [Ph.makes] at hy
 
-theorem step_ueO {ne0 nn0 : Nat} {C D : Nat → Prop} {phs : List Ph} {s : St} {held : List Key} {i : Nat} {e : Nat} {other : Val}
-    (hJ : J ne0 nn0 C D phs s held) (hi : phs[i]? = some (.ueO e other)) :
+theorem step_ueO {ne0 : Nat} {D : Nat → Prop} {phs : List Ph} {s : St} {held : List Key} {i : Nat} {e : Nat} {other : Val}
+    (hJ : J ne0 D phs s held) (hi : phs[i]? = some (.ueO e other)) :
     ∃ ph', ((Ph.ueO e other).prog.step s).1 = ph'.prog ∧
-      J ne0 nn0 C D (phs.set i ph') ((Ph.ueO e other).prog.step s).2 held := by
+      J ne0 D (phs.set i ph') ((Ph.ueO e other).prog.step s).2 held := by
   obtain ⟨hl, ho, hn⟩ : e ≤ ne0 ∧ edgeOf (some other) = none ∧ edgeAt s.kv e = none := hJ.loc i _ hi
   refine ⟨.fin .ok, by simp only [Ph.prog, Prog.step], ?_⟩
   simp only [Ph.prog, Prog.step]
@@ -1188,8 +1261,8 @@ theorem step_ueO {ne0 nn0 : Nat} {C D : Nat → Prop} {phs : List Ph} {s : St} {
     · rename_i h; cases h; rw [ho, hn]
     · rfl
   apply hJ.step hi _ { s with kv := upd s.kv (.edge e) (some other) } held (Nat.le_refl _) (Nat.le_refl _)
-    (fun y ry hy => hJ.x1 y ry (by rw [hE] at hy; exact hy))
   · intro y hy; simp only [hE]; exact hJ.fresh y hy
+  · intro n hn; simpa using hJ.freshN n hn
   · intro y ry hy
     simp only [hE, nodeEx_upd, L_upd_edge] at hy ⊢
     obtain ⟨a1, a2, a3⟩ := hJ.e1 y ry hy
@@ -1207,14 +1280,15 @@ theorem step_ueO {ne0 nn0 : Nat} {C D : Nat → Prop} {phs : List Ph} {s : St} {
   · intro j ph2 hji hj
     exact ⟨Nat.le_refl _, fun n h => by simpa using h, fun _ _ h => h, fun _ _ => by simp, fun y _ => hE y,
       fun e2 _ => ⟨fun r2 hr2 => by rw [hE] at hr2; exact hr2, fun K h => by simpa using h⟩,
-      fun e2 _ r2 hr2 => ⟨r2, by rw [hE]; exact hr2, rfl, rfl, rfl⟩⟩
+      fun e2 _ r2 hr2 => ⟨r2, by rw [hE]; exact hr2, rfl, rfl, rfl⟩, fun _ _ h => by simpa using h⟩
   · intro k hk; simp [Ph.holds] at hk
   · intro y hy; simp [Ph.creates] at hy
+  · intro y hy; simp [Ph.makes] at hy
 
 /-- every store call of a thread in phase `ph` keeps `J` -/
-theorem store_pres {ne0 nn0 : Nat} {C D : Nat → Prop} {phs : List Ph} {s : St} {held : List Key} {i : Nat} {ph : Ph}
-    (hJ : J ne0 nn0 C D phs s held) (hi : phs[i]? = some ph) (hlab : ph.prog.label.isSome = true) :
-    ∃ ph', (ph.prog.step s).1 = ph'.prog ∧ J ne0 nn0 C D (phs.set i ph') (ph.prog.step s).2 held := by
+theorem store_pres {ne0 : Nat} {D : Nat → Prop} {phs : List Ph} {s : St} {held : List Key} {i : Nat} {ph : Ph}
+    (hJ : J ne0 D phs s held) (hi : phs[i]? = some ph) (hlab : ph.prog.label.isSome = true) :
+    ∃ ph', (ph.prog.step s).1 = ph'.prog ∧ J ne0 D (phs.set i ph') (ph.prog.step s).2 held := by
   cases ph with
   | fin res => simp [Ph.prog, Prog.label] at hlab
   | ceA a b d ty v => exact step_ceA hJ hi
@@ -1237,8 +1311,8 @@ theorem store_pres {ne0 nn0 : Nat} {C D : Nat → Prop} {phs : List Ph} {s : St}
   | drec e r => exact step_drec hJ hi
   | cnA l v => simp [Ph.prog, createNodeProg, Prog.label] at hlab
   | cnP1 id l v => exact step_cnP1 hJ hi
-  | cnP2 id => exact step_cnP2 hJ hi
-  | cnP3 id => exact step_cnP3 hJ hi
+  | cnP2 id l v => exact step_cnP2 hJ hi
+  | cnP3 id l v => exact step_cnP3 hJ hi
   | alA n l => exact step_alA hJ hi
   | rlA n l => exact step_rlA hJ hi
   | lbB n labs => exact step_lbB hJ hi
@@ -1261,9 +1335,9 @@ def Op.adm (ne0 : Nat) : Op → Prop
 
 /-- the operations of `quiescent_wf_partial`: also `update_node`, and `update_edge` of an id handed
     out before the concurrent phase that no thread deletes (`D` = the ids that may be deleted) -/
-def Op.adm2 (ne0 nn0 : Nat) (C D : Nat → Prop) : Op → Prop
-  | .createEdge a b .. => ¬ C a ∧ ¬ C b
-  | .createNode .. => ∀ n, nn0 < n → C n
+def Op.adm2 (ne0 : Nat) (D : Nat → Prop) : Op → Prop
+  | .createEdge .. => True
+  | .createNode .. => True
   | .deleteEdge e => e ≤ ne0 ∧ D e
   | .updateNode .. => True
   | .addLabel .. => True
@@ -1271,7 +1345,7 @@ def Op.adm2 (ne0 nn0 : Nat) (C D : Nat → Prop) : Op → Prop
   | .updateEdge e _ => e ≤ ne0 ∧ ¬ D e
   | _ => False
 
-theorem Op.adm.adm2 {ne0 nn0 : Nat} {op : Op} (h : op.adm ne0) : op.adm2 ne0 nn0 (fun _ => False) (fun _ => True) := by
+theorem Op.adm.adm2 {ne0 : Nat} {op : Op} (h : op.adm ne0) : op.adm2 ne0 (fun _ => True) := by
   cases op <;> simp [Op.adm] at h <;> simp [Op.adm2, h]
 
 def phOf : Op → Ph
@@ -1284,25 +1358,26 @@ def phOf : Op → Ph
   | .updateEdge e v => .ueA e v
   | _ => .fin .ok
 
-theorem phOf_prog {ne0 nn0 : Nat} {C D : Nat → Prop} {op : Op} (h : op.adm2 ne0 nn0 C D) : op.prog = (phOf op).prog := by
+theorem phOf_prog {ne0 : Nat} {D : Nat → Prop} {op : Op} (h : op.adm2 ne0 D) : op.prog = (phOf op).prog := by
   cases op <;> simp [Op.adm2] at h <;> rfl
 
-theorem phOf_local {ne0 nn0 : Nat} {C D : Nat → Prop} {op : Op} (h : op.adm2 ne0 nn0 C D) (m : KV) (ne : Nat) (held : List Key) :
-    Local ne0 nn0 C D m ne held (phOf op) := by
+theorem phOf_local {ne0 : Nat} {D : Nat → Prop} {op : Op} (h : op.adm2 ne0 D) (m : KV) (ne : Nat) (held : List Key) :
+    Local ne0 D m ne held (phOf op) := by
   cases op <;> simp [Op.adm2] at h <;> simp [phOf, Local, h] <;> exact h
 
-theorem phOf_plain (op : Op) : (phOf op).holds = none ∧ (phOf op).creates = none ∧ ∀ x K, ¬ Exc (phOf op) x K := by
-  cases op <;> simp [phOf, Ph.holds, Ph.creates, Exc]
+theorem phOf_plain (op : Op) : (phOf op).holds = none ∧ (phOf op).creates = none ∧ (phOf op).makes = none ∧
+    ∀ x K, ¬ Exc (phOf op) x K := by
+  cases op <;> simp [phOf, Ph.holds, Ph.creates, Ph.makes, Exc]
 
 theorem mem_filter_ne {held : List Key} {k k2 : Key} (h : k2 ∈ held) (hne : k2 ≠ k) :
     k2 ∈ held.filter (fun x => x != k) := by
   simp [List.mem_filter, h, hne]
 
-theorem silent_pres {ne0 nn0 : Nat} {C D : Nat → Prop} {phs : List Ph} {s : St} {held : List Key} {i : Nat} {ph : Ph}
-    (hJ : J ne0 nn0 C D phs s held) (hi : phs[i]? = some ph) (rest : List Op) (hadm : ∀ op ∈ rest, op.adm2 ne0 nn0 C D)
+theorem silent_pres {ne0 : Nat} {D : Nat → Prop} {phs : List Ph} {s : St} {held : List Key} {i : Nat} {ph : Ph}
+    (hJ : J ne0 D phs s held) (hi : phs[i]? = some ph) (rest : List Op) (hadm : ∀ op ∈ rest, op.adm2 ne0 D)
     (take : Bool) (rs : List Res) (c' : Cfg)
     (h : Cfg.silent Op.prog take ⟨ph.prog, rest, rs, s, held⟩ = some c') :
-    ∃ ph', c'.p = ph'.prog ∧ (∀ op ∈ c'.rest, op.adm2 ne0 nn0 C D) ∧ J ne0 nn0 C D (phs.set i ph') c'.s c'.held := by
+    ∃ ph', c'.p = ph'.prog ∧ (∀ op ∈ c'.rest, op.adm2 ne0 D) ∧ J ne0 D (phs.set i ph') c'.s c'.held := by
   cases ph with
   | fin res =>
     simp only [Ph.prog, Cfg.silent] at h
@@ -1311,14 +1386,15 @@ theorem silent_pres {ne0 nn0 : Nat} {C D : Nat → Prop} {phs : List Ph} {s : St
     | cons op rest' =>
       simp at h; subst h
       have ha := hadm op (by simp)
-      obtain ⟨p1, p2, p3⟩ := phOf_plain op
+      obtain ⟨p1, p2, pm, p3⟩ := phOf_plain op
       refine ⟨phOf op, phOf_prog ha, fun o ho => hadm o (by simp [ho]), ?_⟩
       exact hJ.step_same hi _ s.ne held (Nat.le_refl _) (fun x K h => by simp [Exc] at h)
         (phOf_local ha _ _ _) (fun _ _ _ _ _ _ h => h) (fun k hk => by simp [p1] at hk) (fun x hx => by simp [p2] at hx)
+        (fun x hx => by simp [pm] at hx)
   | ceA a b d ty v => simp [Ph.prog, createEdgeProg, Cfg.silent] at h
   | ceB a b d ty v => simp [Ph.prog, createEdgeCheckB, Cfg.silent] at h
   | ceAl a b d ty v =>
-    obtain ⟨ha, hb, hC⟩ : nodeEx s.kv a = true ∧ nodeEx s.kv b = true ∧ (¬ C a ∧ ¬ C b) := hJ.loc i _ hi
+    obtain ⟨ha, hb⟩ : nodeEx s.kv a = true ∧ nodeEx s.kv b = true := hJ.loc i _ hi
     simp only [Ph.prog, createEdgeAlloc, Cfg.silent] at h
     simp at h; subst h
     refine ⟨.pre (s.ne + 1) a b d ty v, rfl, hadm, ?_⟩
@@ -1326,7 +1402,7 @@ theorem silent_pres {ne0 nn0 : Nat} {C D : Nat → Prop} {phs : List Ph} {s : St
       (fun _ _ _ _ _ _ h => h) (fun k hk => by simp [Ph.holds] at hk)
       (fun x hx => by simp [Ph.creates] at hx; subst hx; exact Or.inr (Nat.lt_succ_self _))
     simp only [Local]
-    exact ⟨hJ.fresh _ (Nat.lt_succ_self _), by have := hJ.ne_ge; omega, Nat.le_refl _, ha, hb, hC⟩
+    exact ⟨hJ.fresh _ (Nat.lt_succ_self _), by have := hJ.ne_ge; omega, Nat.le_refl _, ha, hb⟩
   | pre x a b d ty v => simp [Ph.prog, createEdgeFrom, Cfg.silent] at h
   | add x r k ks st =>
     obtain ⟨h1, h2, h3, h4, h5⟩ : edgeAt s.kv x = some r ∧ ne0 < x ∧ x ≤ s.ne ∧ (∀ K ∈ k :: ks, K ∈ req r) ∧
@@ -1412,18 +1488,16 @@ theorem silent_pres {ne0 nn0 : Nat} {C D : Nat → Prop} {phs : List Ph} {s : St
         exact ⟨h1, hD, h2, fun K hK => h3 K (by simp at hK ⊢; exact Or.inr hK), h4⟩
   | drec e r => simp [Ph.prog, delTail, Cfg.silent] at h
   | cnA l v =>
-    have hC : ∀ n, nn0 < n → C n := hJ.loc i _ hi
     simp only [Ph.prog, createNodeProg, Cfg.silent] at h
     simp at h; subst h
     refine ⟨.cnP1 (s.nn + 1) l v, rfl, hadm, ?_⟩
-    have hJ' : J ne0 nn0 C D phs { s with nn := s.nn + 1 } held :=
-      ⟨hJ.ne_ge, Nat.le_succ_of_le hJ.nn_ge, hJ.x1, hJ.fresh, hJ.e1, hJ.e2, hJ.e3, hJ.loc, hJ.excl, hJ.uniq⟩
-    exact hJ'.step_same hi _ s.ne held (Nat.le_refl _) (fun x K h => by simp [Exc] at h)
-      (hC _ (by have := hJ.nn_ge; omega))
+    exact hJ.step_cnt hi _ s.ne (s.nn + 1) held (Nat.le_refl _) (Nat.le_succ _) (fun x K h => by simp [Exc] at h)
+      (hJ.freshN _ (Nat.lt_succ_self _))
       (fun _ _ _ _ _ _ h => h) (fun k hk => by simp [Ph.holds] at hk) (fun x hx => by simp [Ph.creates] at hx)
+      (fun x hx => by simp [Ph.makes] at hx; subst hx; exact Or.inr ⟨Nat.lt_succ_self _, Nat.le_refl _⟩)
   | cnP1 id l v => simp [Ph.prog, createNodeFrom, Cfg.silent] at h
-  | cnP2 id => simp [Ph.prog, Cfg.silent] at h
-  | cnP3 id => simp [Ph.prog, Cfg.silent] at h
+  | cnP2 id l v => simp [Ph.prog, Cfg.silent] at h
+  | cnP3 id l v => simp [Ph.prog, Cfg.silent] at h
   | alA n l => simp [Ph.prog, addLabelProg, Cfg.silent] at h
   | rlA n l => simp [Ph.prog, removeLabelProg, Cfg.silent] at h
   | lbB n labs => simp [Ph.prog, Cfg.silent] at h
@@ -1445,12 +1519,12 @@ theorem set_self {phs : List Ph} {i : Nat} {ph : Ph} (hi : phs[i]? = some ph) : 
   · rename_i h; subst h; exact hi.symm
   · rfl
 
-theorem settle_pres {ne0 nn0 : Nat} {C D : Nat → Prop} {i : Nat} (take : Bool) (fuel : Nat) :
+theorem settle_pres {ne0 : Nat} {D : Nat → Prop} {i : Nat} (take : Bool) (fuel : Nat) :
     ∀ (phs : List Ph) (ph : Ph) (rest : List Op) (rs : List Res) (s : St) (held : List Key),
-    J ne0 nn0 C D phs s held → phs[i]? = some ph → (∀ op ∈ rest, op.adm2 ne0 nn0 C D) →
+    J ne0 D phs s held → phs[i]? = some ph → (∀ op ∈ rest, op.adm2 ne0 D) →
     ∃ ph', (settle Op.prog take fuel ⟨ph.prog, rest, rs, s, held⟩).p = ph'.prog ∧
-      (∀ op ∈ (settle Op.prog take fuel ⟨ph.prog, rest, rs, s, held⟩).rest, op.adm2 ne0 nn0 C D) ∧
-      J ne0 nn0 C D (phs.set i ph') (settle Op.prog take fuel ⟨ph.prog, rest, rs, s, held⟩).s
+      (∀ op ∈ (settle Op.prog take fuel ⟨ph.prog, rest, rs, s, held⟩).rest, op.adm2 ne0 D) ∧
+      J ne0 D (phs.set i ph') (settle Op.prog take fuel ⟨ph.prog, rest, rs, s, held⟩).s
         (settle Op.prog take fuel ⟨ph.prog, rest, rs, s, held⟩).held := by
   induction fuel with
   | zero =>
@@ -1471,13 +1545,13 @@ theorem settle_pres {ne0 nn0 : Nat} {C D : Nat → Prop} {i : Nat} (take : Bool)
       exact ⟨ph2, q1, q2, by rw [List.set_set] at q3; exact q3⟩
 
 /-- thread `t` is in phase `ph` and has only admissible operations left -/
-def TMatch (ne0 nn0 : Nat) (C D : Nat → Prop) (t : Thread) (ph : Ph) : Prop :=
-  (t.cur = some ph.prog ∨ (t.cur = none ∧ ∃ r, ph = .fin r)) ∧ ∀ op ∈ t.rest, op.adm2 ne0 nn0 C D
+def TMatch (ne0 : Nat) (D : Nat → Prop) (t : Thread) (ph : Ph) : Prop :=
+  (t.cur = some ph.prog ∨ (t.cur = none ∧ ∃ r, ph = .fin r)) ∧ ∀ op ∈ t.rest, op.adm2 ne0 D
 
-theorem turn_pres {ne0 nn0 : Nat} {C D : Nat → Prop} {phs : List Ph} {s : St} {held : List Key} {i : Nat} {ph : Ph} {t : Thread}
-    (hJ : J ne0 nn0 C D phs s held) (hi : phs[i]? = some ph) (hm : TMatch ne0 nn0 C D t ph) :
-    ∃ ph', TMatch ne0 nn0 C D (t.turn Op.prog s held).1 ph' ∧
-      J ne0 nn0 C D (phs.set i ph') (t.turn Op.prog s held).2.1 (t.turn Op.prog s held).2.2 := by
+theorem turn_pres {ne0 : Nat} {D : Nat → Prop} {phs : List Ph} {s : St} {held : List Key} {i : Nat} {ph : Ph} {t : Thread}
+    (hJ : J ne0 D phs s held) (hi : phs[i]? = some ph) (hm : TMatch ne0 D t ph) :
+    ∃ ph', TMatch ne0 D (t.turn Op.prog s held).1 ph' ∧
+      J ne0 D (phs.set i ph') (t.turn Op.prog s held).2.1 (t.turn Op.prog s held).2.2 := by
   obtain ⟨hcur, hadm⟩ := hm
   rcases hcur with hcur | ⟨hcur, r, rfl⟩
   · simp only [Thread.turn, hcur]
@@ -1506,10 +1580,11 @@ theorem turn_pres {ne0 nn0 : Nat} {C D : Nat → Prop} {phs : List Ph} {s : St} 
     | cons op rest =>
       simp only
       have ha := hadm op (by simp [hr])
-      obtain ⟨q1, q2, q3⟩ := phOf_plain op
-      have J1 : J ne0 nn0 C D (phs.set i (phOf op)) s held :=
+      obtain ⟨q1, q2, qm, q3⟩ := phOf_plain op
+      have J1 : J ne0 D (phs.set i (phOf op)) s held :=
         hJ.step_same hi _ s.ne held (Nat.le_refl _) (fun x K h => by simp [Exc] at h)
           (phOf_local ha _ _ _) (fun _ _ _ _ _ _ h => h) (fun k hk => by simp [q1] at hk) (fun x hx => by simp [q2] at hx)
+          (fun x hx => by simp [qm] at hx)
       have hi1 : (phs.set i (phOf op))[i]? = some (phOf op) := by rw [get_set hi]; simp
       rw [phOf_prog ha]
       obtain ⟨ph2, p2, a2, J2⟩ := settle_pres (i := i) false SETTLE_FUEL (phs.set i (phOf op)) (phOf op) rest t.results
@@ -1522,13 +1597,13 @@ theorem setAt_eq_set {α : Type} (l : List α) (i : Nat) (a : α) : setAt l i a 
   | nil => rfl
   | cons x xs ih => cases i <;> simp [setAt, ih]
 
-def Matches (ne0 nn0 : Nat) (C D : Nat → Prop) (ts : List Thread) (phs : List Ph) : Prop :=
-  ts.length = phs.length ∧ ∀ (i : Nat) (t : Thread) (ph : Ph), ts[i]? = some t → phs[i]? = some ph → TMatch ne0 nn0 C D t ph
+def Matches (ne0 : Nat) (D : Nat → Prop) (ts : List Thread) (phs : List Ph) : Prop :=
+  ts.length = phs.length ∧ ∀ (i : Nat) (t : Thread) (ph : Ph), ts[i]? = some t → phs[i]? = some ph → TMatch ne0 D t ph
 
-theorem runThreads_pres {ne0 nn0 : Nat} {C D : Nat → Prop} (sched : List Nat) :
-    ∀ (ts : List Thread) (phs : List Ph) (s : St) (held : List Key), Matches ne0 nn0 C D ts phs → J ne0 nn0 C D phs s held →
-    ∃ phs', Matches ne0 nn0 C D (runThreads Op.prog ts sched s held).1 phs' ∧
-      J ne0 nn0 C D phs' (runThreads Op.prog ts sched s held).2.1 (runThreads Op.prog ts sched s held).2.2 := by
+theorem runThreads_pres {ne0 : Nat} {D : Nat → Prop} (sched : List Nat) :
+    ∀ (ts : List Thread) (phs : List Ph) (s : St) (held : List Key), Matches ne0 D ts phs → J ne0 D phs s held →
+    ∃ phs', Matches ne0 D (runThreads Op.prog ts sched s held).1 phs' ∧
+      J ne0 D phs' (runThreads Op.prog ts sched s held).2.1 (runThreads Op.prog ts sched s held).2.2 := by
   induction sched with
   | nil => intro ts phs s held hm hJ; exact ⟨phs, hm, hJ⟩
   | cons i sched ih =>
@@ -1559,20 +1634,15 @@ theorem runThreads_pres {ne0 nn0 : Nat} {C D : Nat → Prop} (sched : List Nat) 
 
 /-! ### the ends: the invariant holds initially, and gives `WF` at quiescence -/
 
-theorem J_init {s0 : St} (h : Inv s0) (C D : Nat → Prop) (hC : ∀ n, C n → s0.nn < n) (n : Nat) :
-    J s0.ne s0.nn C D (List.replicate n (.fin .ok)) s0 [] := by
+theorem J_init {s0 : St} (h : Inv s0) (D : Nat → Prop) (n : Nat) :
+    J s0.ne D (List.replicate n (.fin .ok)) s0 [] := by
   have hfin : ∀ (j : Nat) (ph : Ph), (List.replicate n (Ph.fin .ok))[j]? = some ph → ph = .fin .ok := by
     intro j ph hj
     rw [List.getElem?_replicate] at hj
     split at hj
     · cases hj; rfl
     · cases hj
-  refine ⟨Nat.le_refl _, Nat.le_refl _, ?_, h.freshE, ?_, ?_, ?_, ?_, ?_, ?_⟩
-  · intro x r hr
-    obtain ⟨a1, a2, _⟩ := h.wf.edge_listed x r hr
-    constructor
-    · intro hc; have := h.freshN _ (hC _ hc); rw [a1] at this; cases this
-    · intro hc; have := h.freshN _ (hC _ hc); rw [a2] at this; cases this
+  refine ⟨Nat.le_refl _, h.freshE, h.freshN, ?_, ?_, ?_, ?_, ?_, ?_, ?_, ?_⟩
   · intro x r hr
     obtain ⟨a1, a2, a3, a4, a5⟩ := h.wf.edge_listed x r hr
     refine ⟨a1, a2, fun K hK => Or.inl ?_⟩
@@ -1613,6 +1683,8 @@ theorem J_init {s0 : St} (h : Inv s0) (C D : Nat → Prop) (hC : ∀ n, C n → 
   · intro j ph hj; rw [hfin j ph hj]; trivial
   · intro a b pa pb _ ha _ k hk; rw [hfin a pa ha] at hk; simp [Ph.holds] at hk
   · intro a b pa pb _ ha _ x hx; rw [hfin a pa ha] at hx; simp [Ph.creates] at hx
+  · intro j ph id hj hm; rw [hfin j ph hj] at hm; simp [Ph.makes] at hm
+  · intro a b pa pb _ ha _ x hx; rw [hfin a pa ha] at hx; simp [Ph.makes] at hx
 
 theorem prog_done {ph : Ph} {r : Res} (h : ph.prog = .done r) : ph = .fin r := by
   cases ph with
@@ -1623,7 +1695,7 @@ theorem prog_done {ph : Ph} {r : Res} (h : ph.prog = .done r) : ph = .fin r := b
       updateNodeProg, updateNodeSecond, updateEdgeProg, updateEdgeSecond, addLabelProg, removeLabelProg,
       createNodeProg, createNodeFrom] at h
 
-theorem WF_of_J_quiescent {ne0 nn0 : Nat} {C D : Nat → Prop} {phs : List Ph} {s : St} {held : List Key} (hJ : J ne0 nn0 C D phs s held)
+theorem WF_of_J_quiescent {ne0 : Nat} {D : Nat → Prop} {phs : List Ph} {s : St} {held : List Key} (hJ : J ne0 D phs s held)
     (hfin : ∀ (j : Nat) (ph : Ph), phs[j]? = some ph → ∃ r, ph = .fin r) : WF s.kv := by
   have hl : ∀ x r, edgeAt s.kv x = some r → ∀ K ∈ req r, x ∈ L s.kv K := by
     intro x r hr K hK
@@ -1656,11 +1728,11 @@ theorem WF_of_J_quiescent {ne0 nn0 : Nat} {C D : Nat → Prop} {phs : List Ph} {
 
 /-- every interleaving of admissible operations ends, when all threads have finished, in a
     well-formed store -/
-theorem quiescentWF_of_adm2 (s0 : St) (h : Inv s0) (C D : Nat → Prop) (hC : ∀ n, C n → s0.nn < n)
+theorem quiescentWF_of_adm2 (s0 : St) (h : Inv s0) (D : Nat → Prop)
     (programs : List (List Op))
-    (hadm : ∀ ops ∈ programs, ∀ op ∈ ops, op.adm2 s0.ne s0.nn C D) : QuiescentWF s0 programs := by
+    (hadm : ∀ ops ∈ programs, ∀ op ∈ ops, op.adm2 s0.ne D) : QuiescentWF s0 programs := by
   intro sched hfin
-  have hm : Matches s0.ne s0.nn C D (programs.map Thread.ofOps) (List.replicate programs.length (.fin .ok)) := by
+  have hm : Matches s0.ne D (programs.map Thread.ofOps) (List.replicate programs.length (.fin .ok)) := by
     refine ⟨by simp, ?_⟩
     intro i t ph ht hp
     rw [List.getElem?_replicate] at hp
@@ -1673,7 +1745,7 @@ theorem quiescentWF_of_adm2 (s0 : St) (h : Inv s0) (C D : Nat → Prop) (hC : 
         simp [hpi] at ht; subst ht
         exact ⟨Or.inr ⟨rfl, _, rfl⟩, hadm ops (List.mem_of_getElem? hpi)⟩
     · cases hp
-  obtain ⟨phs', hm', hJ'⟩ := runThreads_pres sched _ _ s0 [] hm (J_init h C D hC programs.length)
+  obtain ⟨phs', hm', hJ'⟩ := runThreads_pres sched _ _ s0 [] hm (J_init h D programs.length)
   apply WF_of_J_quiescent hJ'
   intro j ph hj
   have hlt : j < (runThreads Op.prog (programs.map Thread.ofOps) sched s0 []).1.length := by
@@ -1693,9 +1765,12 @@ theorem quiescentWF_of_adm2 (s0 : St) (h : Inv s0) (C D : Nat → Prop) (hC : 
     exact ⟨_, prog_done hp⟩
   · exact ⟨r, rfl⟩
 
-/-- the operations `quiescent_wf_partial` admits, as a condition on the programs themselves -/
+/-- the operations `quiescent_wf_partial` admits, as a condition on the programs themselves:
+    `create_node` and `create_edge` with ANY arguments (also node ids that a concurrent `create_node`
+    is about to hand out), node updates and label changes of any node, `delete_edge` / `update_edge`
+    of ids handed out before the phase, no edge both updated and deleted -/
 def Admissible (s0 : St) (programs : List (List Op)) : Op → Prop
-  | .createEdge a b .. => (a ≤ s0.nn ∧ b ≤ s0.nn) ∨ ∀ ops ∈ programs, ∀ l v, Op.createNode l v ∉ ops
+  | .createEdge .. => True
   | .createNode .. => True
   | .updateNode .. => True
   | .addLabel .. => True
@@ -1706,48 +1781,25 @@ def Admissible (s0 : St) (programs : List (List Op)) : Op → Prop
 
 theorem quiescentWF_of_admissible (s0 : St) (h : Inv s0) (programs : List (List Op))
     (hadm : ∀ ops ∈ programs, ∀ op ∈ ops, Admissible s0 programs op) : QuiescentWF s0 programs := by
-  by_cases hcn : ∀ ops ∈ programs, ∀ l v, Op.createNode l v ∉ ops
-  · -- no create_node in the phase: `create_edge` with any arguments
-    apply quiescentWF_of_adm2 s0 h (fun _ => False) (fun e => ∃ ops ∈ programs, Op.deleteEdge e ∈ ops)
-      (fun _ hc => hc.elim) programs
-    intro ops ho op hop
-    have ha := hadm ops ho op hop
-    cases op with
-    | createEdge a b d ty v => exact ⟨fun hc => hc, fun hc => hc⟩
-    | createNode l v => exact absurd hop (hcn ops ho l v)
-    | updateNode n lab v => trivial
-    | addLabel n l => trivial
-    | removeLabel n l => trivial
-    | deleteEdge e => exact ⟨ha, ops, ho, hop⟩
-    | updateEdge e v =>
-      refine ⟨ha.1, ?_⟩
-      rintro ⟨ops', ho', hm⟩
-      exact ha.2 ops' ho' hm
-    | _ => exact ha.elim
-  · -- some thread creates nodes: `create_edge` only between nodes that existed before the phase
-    apply quiescentWF_of_adm2 s0 h (fun n => s0.nn < n) (fun e => ∃ ops ∈ programs, Op.deleteEdge e ∈ ops)
-      (fun _ hc => hc) programs
-    intro ops ho op hop
-    have ha := hadm ops ho op hop
-    cases op with
-    | createEdge a b d ty v =>
-      rcases ha with ⟨h1, h2⟩ | ha
-      · exact ⟨by omega, by omega⟩
-      · exact absurd ha hcn
-    | createNode l v => exact fun n hn => hn
-    | updateNode n lab v => trivial
-    | addLabel n l => trivial
-    | removeLabel n l => trivial
-    | deleteEdge e => exact ⟨ha, ops, ho, hop⟩
-    | updateEdge e v =>
-      refine ⟨ha.1, ?_⟩
-      rintro ⟨ops', ho', hm⟩
-      exact ha.2 ops' ho' hm
-    | _ => exact ha.elim
+  apply quiescentWF_of_adm2 s0 h (fun e => ∃ ops ∈ programs, Op.deleteEdge e ∈ ops) programs
+  intro ops ho op hop
+  have ha := hadm ops ho op hop
+  cases op with
+  | createEdge a b d ty v => trivial
+  | createNode l v => trivial
+  | updateNode n lab v => trivial
+  | addLabel n l => trivial
+  | removeLabel n l => trivial
+  | deleteEdge e => exact ⟨ha, ops, ho, hop⟩
+  | updateEdge e v =>
+    refine ⟨ha.1, ?_⟩
+    rintro ⟨ops', ho', hm⟩
+    exact ha.2 ops' ho' hm
+  | _ => exact ha.elim
 
 theorem quiescentWF_of_adm (s0 : St) (h : Inv s0) (programs : List (List Op))
     (hadm : ∀ ops ∈ programs, ∀ op ∈ ops, op.adm s0.ne) : QuiescentWF s0 programs :=
-  quiescentWF_of_adm2 s0 h (fun _ => False) (fun _ => True) (fun _ hc => hc.elim) programs
+  quiescentWF_of_adm2 s0 h (fun _ => True) programs
     (fun ops ho op hop => (hadm ops ho op hop).adm2)
 
 end Neumann.Graph
